@@ -1,6 +1,2188 @@
-//! C12 — monitor not built yet.
-use crate::core::Ctx;
+//! C12 — symmetric and KDF constructions are the RFC's (interoperable ciphertext).
+//!
+//! Every construction is exercised in both directions against the independent reference
+//! (`crate::rfc`): what the library emits must decrypt under the reference to the plaintext, what
+//! the reference emits must decrypt under the library, and deterministic outputs (given key, salt,
+//! IV/nonce, prefix) must be byte-identical.
+
+use std::io::Read;
+
+use pgp::composed::{
+    DecryptionOptions, Message, MessageBuilder, PlainSessionKey, RawSessionKey, TheRing,
+};
+use pgp::crypto::aead::{AeadAlgorithm, ChunkSize};
+use pgp::crypto::hash::HashAlgorithm;
+use pgp::crypto::sym::SymmetricKeyAlgorithm;
+use pgp::packet::{PacketHeader, SymEncryptedProtectedData};
+use pgp::ser::Serialize;
+use pgp::types::{
+    DecryptionKey, EncryptionKey, EskType, Mpi, Password, PkeskBytes, S2kParams,
+    Seipdv1ReadMode, StringToKey, Tag,
+};
+use rand::{Rng, RngCore};
+use rand_chacha::ChaCha8Rng;
+use serde_json::{json, Value};
+
+use crate::core::{describe_case, hexs, Ctx};
+use crate::hooks;
+use crate::rec::RecEncryptor;
+use crate::rfc;
+use crate::rfc::frame::{deframe, frame, LenForm};
+use crate::rfc::key::{RefProtection, RefPub, RefSecret};
+use crate::rfc::sym::RefS2k;
+use crate::shim::{drain_read, Consume, Sched, SchedReader};
+use crate::zoo;
 
 pub fn run(ctx: &mut Ctx) {
-    ctx.inconclusive("monitor not built yet");
+    // (family, repetitions with fresh random material in the thorough tier)
+    let fams: [(&str, fn(&mut Ctx), u64); 10] = [
+        ("s2k", fam_s2k, 1),
+        ("cfb_raw", fam_cfb_raw, 3),
+        ("seipd1_msg", fam_seipd1_msg, 4),
+        ("seipd2_raw", fam_seipd2_raw, 2),
+        ("seipd2_msg", fam_seipd2_msg, 4),
+        ("skesk", fam_skesk, 6),
+        ("keyprot", fam_keyprot, 3),
+        ("kw_kdf", fam_kw_kdf, 4),
+        ("ecdh_params", fam_ecdh_params, 6),
+        ("pkesk_e2e", fam_pkesk_e2e, 3),
+    ];
+    let seed0 = ctx.seed;
+    for (name, f, reps) in fams {
+        let t0 = crate::core::thread_cpu_s();
+        for rep in 0..ctx.qt(1, reps) {
+            // every random draw goes through ctx.rng(seed, ..): a repetition is the same case
+            // grid with different keys / salts / nonces / plaintexts
+            ctx.seed = seed0 ^ rep.wrapping_mul(0x9E37_79B9_7F4A_7C15);
+            f(ctx);
+        }
+        ctx.seed = seed0;
+        ctx.tally(&format!("cpu_ms.{name}"), ((crate::core::thread_cpu_s() - t0) * 1000.0) as u64);
+    }
+}
+
+// ---------------------------------------------------------------------------------------------
+// helpers
+
+const HASHES: [u8; 9] = [1, 2, 3, 8, 9, 10, 11, 12, 14];
+const STRONG_HASHES: [u8; 6] = [8, 9, 10, 11, 12, 14];
+const AES: [u8; 3] = [7, 8, 9];
+const AEADS: [u8; 3] = [1, 2, 3];
+
+fn sym(a: u8) -> SymmetricKeyAlgorithm {
+    SymmetricKeyAlgorithm::from(a)
+}
+fn aead(a: u8) -> AeadAlgorithm {
+    AeadAlgorithm::from(a)
+}
+fn chunk(c: u8) -> ChunkSize {
+    ChunkSize::try_from(c).expect("chunk octet 0..=16")
+}
+fn rbytes(rng: &mut ChaCha8Rng, n: usize) -> Vec<u8> {
+    let mut v = vec![0u8; n];
+    rng.fill_bytes(&mut v);
+    v
+}
+
+/// class of a length relative to a unit (block / chunk / buffer size)
+fn len_class(n: usize, unit: usize) -> String {
+    if n == 0 {
+        return "0".into();
+    }
+    let k = (n / unit).min(4);
+    let r = n % unit;
+    if r == 0 {
+        format!("{k}u")
+    } else if r == 1 {
+        format!("{k}u+1")
+    } else if r == unit - 1 {
+        format!("{}u-1", k + 1)
+    } else {
+        format!("{k}u+mid")
+    }
+}
+
+#[allow(clippy::too_many_arguments)]
+fn cov(
+    ctx: &mut Ctx,
+    cons: &str,
+    cipher: u8,
+    aead: u8,
+    chunk: u8,
+    s2k: u8,
+    hash: u8,
+    countc: &str,
+    lenc: &str,
+    dir: &str,
+) {
+    ctx.cover(&(cons, cipher, aead, chunk, s2k, hash, countc, lenc, dir));
+    ctx.seen("constructions", format!("{cons}/{dir}"));
+    if cipher != 0 {
+        ctx.seen("matrix.construction:cipher", format!("{cons}:{cipher}"));
+    }
+    if aead != 0 {
+        ctx.seen("matrix.construction:aead:chunk", format!("{cons}:{aead}:{chunk}"));
+    }
+    if hash != 0 || s2k != 0 {
+        ctx.seen("matrix.construction:s2k-type:hash", format!("{cons}:{s2k}:{hash}"));
+    }
+}
+
+/// Runs a piece of library code under panic capture and counts it as one evaluation.
+fn lib<T>(ctx: &mut Ctx, sig: &str, replay: &Value, f: impl FnOnce() -> T) -> Option<T> {
+    ctx.eval();
+    ctx.guarded(sig, || replay.clone(), f)
+}
+
+/// Reference literal data packet (binary, empty name, date 0) around `payload`.
+fn ref_literal(payload: &[u8]) -> Vec<u8> {
+    let mut body = vec![b'b', 0, 0, 0, 0, 0];
+    body.extend_from_slice(payload);
+    frame(11, &body, &LenForm::NewMin).expect("literal frame")
+}
+
+/// Parses an inner packet stream that must consist of exactly one literal packet.
+fn parse_literal(inner: &[u8]) -> Result<Vec<u8>, String> {
+    let pk = deframe(inner)?;
+    if pk.len() != 1 || pk[0].tag != 11 {
+        return Err(format!(
+            "inner stream is not a single literal packet: tags {:?}",
+            pk.iter().map(|p| p.tag).collect::<Vec<_>>()
+        ));
+    }
+    let b = &pk[0].body;
+    if b.len() < 6 {
+        return Err("literal too short".into());
+    }
+    let nl = b[1] as usize;
+    b.get(2 + nl + 4..).map(|d| d.to_vec()).ok_or_else(|| "literal truncated".to_string())
+}
+
+fn ring_sk(sk: PlainSessionKey, opts: DecryptionOptions) -> TheRing<'static> {
+    TheRing {
+        session_keys: vec![sk],
+        decrypt_options: opts,
+        ..Default::default()
+    }
+}
+
+/// Library: parse message bytes, decrypt with the ring, read all data.
+fn lib_read_msg(bytes: &[u8], ring: TheRing<'_>) -> Result<Vec<u8>, String> {
+    let msg = Message::from_bytes(bytes).map_err(|e| format!("parse: {e}"))?;
+    let (mut m, _) = msg.decrypt_the_ring(ring, true).map_err(|e| format!("decrypt: {e}"))?;
+    m.as_data_vec().map_err(|e| format!("read: {e}"))
+}
+
+fn outer_form(idx: usize, body_len: usize, tag: u8) -> LenForm {
+    match idx % 5 {
+        0 => LenForm::NewMin,
+        1 => LenForm::New5,
+        2 if body_len >= 512 => LenForm::Partial(vec![512], Box::new(LenForm::NewMin)),
+        3 if tag <= 15 => LenForm::OldIndeterminate,
+        4 if tag <= 15 => LenForm::Old4,
+        _ => LenForm::NewMin,
+    }
+}
+
+fn form_name(f: &LenForm) -> &'static str {
+    match f {
+        LenForm::NewMin => "new",
+        LenForm::New5 => "new5",
+        LenForm::Partial(..) => "partial",
+        LenForm::OldIndeterminate => "old-indet",
+        LenForm::Old4 => "old4",
+        _ => "other",
+    }
+}
+
+fn note_hooks(ctx: &mut Ctx, ev: &[hooks::Ev]) {
+    for e in ev {
+        match e.site {
+            "aead.enc.chunk" => ctx.seen("hook.aead.enc.chunk.index", e.a.min(3).to_string()),
+            "aead.enc.final" => ctx.seen("hook.aead.enc.final.chunks", e.b.min(3).to_string()),
+            "aead.dec.chunk" => ctx.seen("hook.aead.dec.chunk.index", e.a.min(3).to_string()),
+            "aead.dec.final" => ctx.seen("hook.aead.dec.final.chunks", e.b.min(3).to_string()),
+            "cfb.dec.avail" => ctx.seen("hook.cfb.dec.mode", format!("{}-last{}", e.a, e.c)),
+            "cfb.dec.mdc_ok" => ctx.seen("hook.cfb.dec.mdc_ok", "seen"),
+            _ => {}
+        }
+    }
+}
+
+// ---------------------------------------------------------------------------------------------
+// (4) S2K
+
+fn lib_s2k(r: &RefS2k) -> StringToKey {
+    match r {
+        RefS2k::Simple { hash } => StringToKey::Simple { hash_alg: HashAlgorithm::from(*hash) },
+        RefS2k::Salted { hash, salt } => StringToKey::Salted {
+            hash_alg: HashAlgorithm::from(*hash),
+            salt: *salt,
+        },
+        RefS2k::Iterated { hash, salt, count } => StringToKey::IteratedAndSalted {
+            hash_alg: HashAlgorithm::from(*hash),
+            salt: *salt,
+            count: *count,
+        },
+        RefS2k::Argon2 { salt, t, p, m } => StringToKey::Argon2 {
+            salt: *salt,
+            t: *t,
+            p: *p,
+            m_enc: *m,
+        },
+    }
+}
+
+fn s2k_kind(r: &RefS2k) -> (u8, u8, &'static str) {
+    match r {
+        RefS2k::Simple { hash } => (0, *hash, "simple"),
+        RefS2k::Salted { hash, .. } => (1, *hash, "salted"),
+        RefS2k::Iterated { hash, .. } => (3, *hash, "iterated"),
+        RefS2k::Argon2 { .. } => (4, 0, "argon2"),
+    }
+}
+
+fn count_class(c: u8) -> String {
+    // mantissa class x exponent
+    let m = match c & 15 {
+        0 => "m0",
+        15 => "m15",
+        _ => "m",
+    };
+    format!("{m}e{}", c >> 4)
+}
+
+fn s2k_check(ctx: &mut Ctx, r: &RefS2k, pw: &[u8], ks: usize, countc: &str) {
+    let (kind, hash, name) = s2k_kind(r);
+    let rp = json!({"family": "s2k", "s2k": hexs(&r.encode()), "pw": hexs(pw), "key_size": ks});
+    let l = lib_s2k(r);
+    let got = lib(ctx, "C12/s2k", &rp, || l.derive_key(pw, ks).map(|k| k.as_ref().to_vec()));
+    let Some(got) = got else { return };
+    let Some(want) = r.derive(pw, ks) else {
+        ctx.inconclusive("reference cannot derive this S2K");
+        return;
+    };
+    let hl = rfc::hash_len(hash).unwrap_or(ks);
+    let rounds = if kind == 4 { 1 } else { ks.div_ceil(hl) };
+    let pwc = match pw.len() {
+        0 => "0".to_string(),
+        n if n > 1000 => "long".to_string(),
+        n => n.to_string(),
+    };
+    cov(ctx, "s2k", 0, 0, 0, kind, hash, countc, &format!("ks{ks}r{rounds}pw{pwc}"), "derive");
+    ctx.seen("s2k.rounds", rounds.min(3).to_string());
+    match got {
+        Ok(k) => {
+            if k != want {
+                let why = if rounds > 1 && k[..hl.min(ks)] == want[..hl.min(ks)] {
+                    "later-round"
+                } else {
+                    "first-round"
+                };
+                ctx.violation(
+                    format!("C12/s2k/derive-mismatch/{name}"),
+                    format!(
+                        "StringToKey::derive_key differs from RFC 9580 3.7.1 ({why}): s2k={} pwlen={} key_size={} lib={} ref={}",
+                        hexs(&r.encode()), pw.len(), ks, hexs(&k), hexs(&want)
+                    ),
+                    rp,
+                );
+            }
+        }
+        Err(e) => ctx.violation(
+            format!("C12/s2k/derive-error/{name}"),
+            format!("derive_key failed on a specifier the RFC defines: {e}; s2k={}", hexs(&r.encode())),
+            rp,
+        ),
+    }
+}
+
+fn s2k_codec_check(ctx: &mut Ctx, r: &RefS2k) {
+    let enc = r.encode();
+    let l = lib_s2k(r);
+    let rp = json!({"family": "s2k-codec", "s2k": hexs(&enc)});
+    if let Some(Ok(b)) = lib(ctx, "C12/s2k", &rp, || l.to_bytes()) {
+        if b != enc {
+            ctx.violation(
+                "C12/s2k/encode-mismatch",
+                format!("S2K specifier wire form differs: lib={} ref={}", hexs(&b), hexs(&enc)),
+                rp.clone(),
+            );
+        }
+    }
+    match lib(ctx, "C12/s2k", &rp, || StringToKey::try_from_reader(&enc[..])) {
+        Some(Ok(p)) if p == l => {}
+        Some(other) => ctx.violation(
+            "C12/s2k/decode-mismatch",
+            format!("S2K specifier {} parsed as {:?}", hexs(&enc), other.map(|s| format!("{s:?}"))),
+            rp,
+        ),
+        None => {}
+    }
+}
+
+fn fam_s2k(ctx: &mut Ctx) {
+    let pwlens: [usize; 7] = [0, 1, 8, 55, 56, 64, 200];
+    let long_pw: [usize; 3] = [1016, 1017, 2000];
+    let key_sizes = [16usize, 24, 32];
+
+    // simple + salted + iterated with small counts: full matrix hash x key size x password length
+    let small_counts: Vec<u8> = if ctx.quick() {
+        (0u8..=0x4F).chain([96, 111]).collect()
+    } else {
+        (0u8..=0x8F).collect()
+    };
+    for (hi, &h) in HASHES.iter().enumerate() {
+        // --- simple, salted
+        if ctx.mine() {
+            describe_case(&format!("s2k simple/salted hash {h}"));
+            let mut rng = ctx.rng("s2k.ss", hi as u64);
+            s2k_codec_check(ctx, &RefS2k::Simple { hash: h });
+            for &ks in &key_sizes {
+                for &pl in pwlens.iter().chain(long_pw.iter().take(1)) {
+                    let pw = rbytes(&mut rng, pl);
+                    s2k_check(ctx, &RefS2k::Simple { hash: h }, &pw, ks, "-");
+                    let salt: [u8; 8] = rng.gen();
+                    let r = RefS2k::Salted { hash: h, salt };
+                    s2k_check(ctx, &r, &pw, ks, "-");
+                    if pl == 8 && ks == 16 {
+                        s2k_codec_check(ctx, &r);
+                    }
+                }
+            }
+        }
+        // --- iterated, small counts
+        for (ci, chunk_) in small_counts.chunks(8).enumerate() {
+            if !ctx.mine() {
+                continue;
+            }
+            describe_case(&format!("s2k iterated hash {h} counts {chunk_:?}"));
+            let mut rng = ctx.rng("s2k.it", (hi * 1000 + ci) as u64);
+            for &c in chunk_ {
+                let salt: [u8; 8] = rng.gen();
+                let r = RefS2k::Iterated { hash: h, salt, count: c };
+                s2k_codec_check(ctx, &r);
+                for &ks in &key_sizes {
+                    for &pl in pwlens.iter() {
+                        let pw = rbytes(&mut rng, pl);
+                        s2k_check(ctx, &r, &pw, ks, &count_class(c));
+                    }
+                }
+                // salt+password longer than / equal to the decoded count
+                if c <= 17 {
+                    for &pl in &long_pw {
+                        let pw = rbytes(&mut rng, pl);
+                        s2k_check(ctx, &r, &pw, key_sizes[(c as usize + pl) % 3], &count_class(c));
+                    }
+                }
+            }
+        }
+    }
+    // --- iterated, large counts (rationed: one key size / password per case)
+    let big_counts: Vec<u8> = if ctx.quick() {
+        vec![128, 143, 160, 224, 255]
+    } else {
+        (0x90u8..=0xFF).collect()
+    };
+    let big_ks: &[usize] = if ctx.quick() { &[32] } else { &[16, 24, 32] };
+    let npw = ctx.qt(1usize, 2usize);
+    for (hi, &h) in HASHES.iter().enumerate() {
+        for &c in &big_counts {
+            for &ks in big_ks {
+                if !ctx.mine() {
+                    continue;
+                }
+                describe_case(&format!("s2k iterated hash {h} count {c} ks {ks}"));
+                let mut rng = ctx.rng("s2k.big", (hi * 100000 + c as usize * 100 + ks) as u64);
+                for k in 0..npw {
+                    let salt: [u8; 8] = rng.gen();
+                    let pl = pwlens[(c as usize + hi + ks + 3 * k) % pwlens.len()];
+                    let pw = rbytes(&mut rng, pl);
+                    s2k_check(ctx, &RefS2k::Iterated { hash: h, salt, count: c }, &pw, ks, &count_class(c));
+                }
+            }
+        }
+    }
+    // --- Argon2 (cheap parameters, 8p <= 2^m)
+    let mut idx = 0u64;
+    for t in 1u8..=3 {
+        for p in [1u8, 2, 3, 4] {
+            let m_min = 3 + (p as f32).log2().ceil() as u8;
+            let m_max = ctx.qt(m_min + 2, 10);
+            for m in m_min..=m_max {
+                idx += 1;
+                if !ctx.mine() {
+                    continue;
+                }
+                describe_case(&format!("s2k argon2 t{t} p{p} m{m}"));
+                let mut rng = ctx.rng("s2k.argon", idx);
+                let salt: [u8; 16] = rng.gen();
+                let r = RefS2k::Argon2 { salt, t, p, m };
+                s2k_codec_check(ctx, &r);
+                for &ks in &key_sizes {
+                    for pl in [0usize, 8, 200] {
+                        let pw = rbytes(&mut rng, pl);
+                        s2k_check(ctx, &r, &pw, ks, &format!("t{t}p{p}m{m}"));
+                    }
+                }
+            }
+        }
+    }
+    // --- unknown hash ids must be refused, never silently mapped
+    if ctx.mine() {
+        for h in [0u8, 4, 5, 6, 7, 13, 15, 100, 110] {
+            let l = StringToKey::Simple { hash_alg: HashAlgorithm::from(h) };
+            let rp = json!({"family": "s2k-unknown-hash", "hash": h});
+            if let Some(Ok(k)) = lib(ctx, "C12/s2k", &rp, || l.derive_key(b"pw", 16).map(|k| k.as_ref().to_vec())) {
+                ctx.violation(
+                    "C12/s2k/unknown-hash-derives",
+                    format!("derive_key with undefined hash id {h} returned a key {}", hexs(&k)),
+                    rp,
+                );
+            }
+            ctx.tally("s2k.unknown_hash_refused", 1);
+        }
+    }
+}
+
+// placeholders, filled in below
+// ---------------------------------------------------------------------------------------------
+// (1) OpenPGP CFB at the raw API: encrypt_protected / stream_encryptor / stream_decryptor_* /
+// encrypt (SED) / *_with_iv_regular against the reference, arbitrary plaintext, exact lengths.
+
+fn cfb_lengths(bs: usize, quick: bool) -> Vec<usize> {
+    let mut v: Vec<usize> = (0..=2 * bs + 2).collect();
+    v.extend([3 * bs - 1, 3 * bs, 100, 1000]);
+    let kmax = if quick { 2 } else { 6 };
+    for k in 1..=kmax {
+        // 8192-byte buffers of the stream encryptor (plaintext side) and decryptor (ciphertext
+        // side, 22 octets of MDC held back)
+        for d in [-23i64, -22, -21, -2, -1, 0, 1, 2] {
+            v.push((8192 * k as i64 + d) as usize);
+        }
+    }
+    v.sort_unstable();
+    v.dedup();
+    v
+}
+
+fn fam_cfb_raw(ctx: &mut Ctx) {
+    let scheds = |seed: u64| -> [Sched; 4] {
+        [Sched::All, Sched::Fixed(1), Sched::Cycle(vec![8191, 1, 2]), Sched::Random(seed, 9000)]
+    };
+    let consumers = [Consume::ToEnd, Consume::Read(1), Consume::Read(8192), Consume::Read(777)];
+    for &alg in rfc::sym::ALL_CIPHERS.iter() {
+        let bs = rfc::sym::block_size(alg).unwrap();
+        let ks = rfc::sym::key_size(alg).unwrap();
+        let lens = cfb_lengths(bs, ctx.quick());
+        for (gi, group) in lens.chunks(12).enumerate() {
+            if !ctx.mine() {
+                continue;
+            }
+            describe_case(&format!("cfb raw alg {alg} lens {group:?}"));
+            for &n in group {
+                let mut rng = ctx.rng("cfb.raw", (alg as u64) << 32 | n as u64);
+                let key = rbytes(&mut rng, ks);
+                let pt = rbytes(&mut rng, n);
+                let seed: u64 = rng.gen();
+                let lrng = rng.clone(); // the generator handed to the library
+                let prefix = rbytes(&mut rng, bs); // what the library will draw from it
+                let rp = json!({"family": "cfb-raw", "alg": alg, "len": n, "key": hexs(&key), "prefix": hexs(&prefix), "pt": hexs(&pt)});
+                let lc = len_class(n, if n >= 4096 { 8192 } else { bs });
+                let a = sym(alg);
+                let want = rfc::sym::seipd_v1_encrypt(alg, &key, &prefix, &pt).expect("ref seipd1");
+
+                // (a) one-shot protected encryption: byte identical
+                cov(ctx, "seipd1-raw", alg, 0, 0, 0, 0, "-", &lc, "lib->ref");
+                if let Some(r) = lib(ctx, "C12/seipd1/raw", &rp, || a.encrypt_protected(lrng.clone(), &key, &pt)) {
+                    match r {
+                        Ok(ct) if ct == want => {}
+                        Ok(ct) => {
+                            let sym_ = match rfc::sym::seipd_v1_decrypt(alg, &key, &ct) {
+                                Ok(p) if p == pt => "other-prefix",
+                                Ok(_) => "wrong-plaintext",
+                                Err(rfc::sym::V1Error::Mdc) => "mdc",
+                                Err(rfc::sym::V1Error::QuickCheck) => "quick-check",
+                                Err(_) => "undecryptable",
+                            };
+                            if sym_ == "other-prefix" {
+                                ctx.inconclusive("library drew the CFB prefix differently from the generator than assumed");
+                            } else {
+                                ctx.violation(
+                                    format!("C12/seipd1/raw/encrypt_protected/{sym_}"),
+                                    format!("encrypt_protected output is not the RFC 9580 5.13.1 ciphertext (alg {alg}, len {n}): reference says {sym_}"),
+                                    rp.clone(),
+                                );
+                            }
+                        }
+                        Err(e) => ctx.violation("C12/seipd1/raw/encrypt_protected/error", format!("{e}"), rp.clone()),
+                    }
+                }
+                // (b) streaming encryptor under a source schedule and a consumer pattern
+                let sc = scheds(seed)[(n + alg as usize) % 4].clone();
+                let cons = &consumers[(n / 3 + alg as usize) % 4];
+                if let Some(r) = lib(ctx, "C12/seipd1/raw", &rp, || {
+                    a.stream_encryptor(lrng.clone(), &key, SchedReader::new(pt.clone(), sc.clone()))
+                        .map(|mut e| drain_read(&mut e, cons))
+                }) {
+                    match r {
+                        Ok(d) if d.err.is_none() && d.data == want => {}
+                        Ok(d) => {
+                            let sym_ = if d.err.is_some() {
+                                "io-error"
+                            } else if d.data.len() != want.len() {
+                                "length"
+                            } else {
+                                match rfc::sym::seipd_v1_decrypt(alg, &key, &d.data) {
+                                    Ok(p) if p == pt => "other-prefix",
+                                    Ok(_) => "wrong-plaintext",
+                                    Err(rfc::sym::V1Error::Mdc) => "mdc",
+                                    Err(_) => "undecryptable",
+                                }
+                            };
+                            if sym_ == "other-prefix" {
+                                ctx.inconclusive("library drew the CFB prefix differently from the generator than assumed");
+                            } else {
+                                ctx.violation(
+                                    format!("C12/seipd1/raw/stream_encryptor/{sym_}"),
+                                    format!("stream_encryptor output is not the RFC ciphertext (alg {alg}, len {n}, source {}, consumer {cons:?}): got {} bytes, want {}", sc.name(), d.data.len(), want.len()),
+                                    rp.clone(),
+                                );
+                            }
+                        }
+                        Err(e) => ctx.violation("C12/seipd1/raw/stream_encryptor/error", format!("{e}"), rp.clone()),
+                    }
+                }
+                // (c) reference ciphertext through the library's protected stream decryptor, both modes
+                for (mi, mode) in [Seipdv1ReadMode::default(), Seipdv1ReadMode::Streaming].into_iter().enumerate() {
+                    cov(ctx, "seipd1-raw", alg, 0, 0, 0, 0, if mi == 0 { "checkfirst" } else { "streaming" }, &lc, "ref->lib");
+                    let r = lib(ctx, "C12/seipd1/raw", &rp, || {
+                        hooks::record(|| {
+                            a.stream_decryptor_protected(mode, &key, &want[..]).map_err(|e| e.to_string()).and_then(|mut d| {
+                                let mut out = vec![];
+                                d.read_to_end(&mut out).map_err(|e| e.to_string())?;
+                                Ok(out)
+                            })
+                        })
+                    });
+                    let Some((r, ev)) = r else { continue };
+                    note_hooks(ctx, &ev);
+                    match r {
+                        Ok(out) if out == pt => {}
+                        Ok(_) => ctx.violation("C12/seipd1/raw/ref-to-lib/wrong-plaintext", format!("alg {alg} len {n} mode {mi}"), rp.clone()),
+                        Err(e) => ctx.violation(
+                            "C12/seipd1/raw/ref-to-lib/rejected",
+                            format!("library rejects the reference SEIPDv1 ciphertext (alg {alg}, len {n}, mode {mi}): {e}"),
+                            rp.clone(),
+                        ),
+                    }
+                }
+                // (d) SED (tag 9, resynchronising CFB)
+                let want_sed = rfc::sym::sed_encrypt(alg, &key, &prefix, &pt).expect("ref sed");
+                cov(ctx, "sed-raw", alg, 0, 0, 0, 0, "-", &lc, "lib->ref");
+                if let Some(r) = lib(ctx, "C12/sed/raw", &rp, || a.encrypt(lrng.clone(), &key, &pt)) {
+                    match r {
+                        Ok(ct) if ct == want_sed => {}
+                        Ok(ct) => {
+                            let ok = rfc::sym::sed_decrypt(alg, &key, &ct).as_deref() == Some(&pt[..]);
+                            ctx.violation(
+                                format!("C12/sed/raw/encrypt/{}", if ok { "prefix-differs" } else { "undecryptable" }),
+                                format!("SymmetricKeyAlgorithm::encrypt is not the RFC 4880 5.7 resync-CFB ciphertext (alg {alg}, len {n})"),
+                                rp.clone(),
+                            );
+                        }
+                        Err(e) => ctx.violation("C12/sed/raw/encrypt/error", format!("{e}"), rp.clone()),
+                    }
+                }
+                cov(ctx, "sed-raw", alg, 0, 0, 0, 0, "-", &lc, "ref->lib");
+                if let Some((r, ev)) = lib(ctx, "C12/sed/raw", &rp, || {
+                    hooks::record(|| {
+                        a.stream_decryptor_unprotected(&key, &want_sed[..]).map_err(|e| e.to_string()).and_then(|mut d| {
+                            let mut out = vec![];
+                            d.read_to_end(&mut out).map_err(|e| e.to_string())?;
+                            Ok(out)
+                        })
+                    })
+                }) {
+                    note_hooks(ctx, &ev);
+                    match r {
+                        Ok(out) if out == pt => {}
+                        Ok(_) => ctx.violation("C12/sed/raw/ref-to-lib/wrong-plaintext", format!("alg {alg} len {n}"), rp.clone()),
+                        Err(e) => ctx.violation("C12/sed/raw/ref-to-lib/rejected", format!("alg {alg} len {n}: {e}"), rp.clone()),
+                    }
+                }
+                // (e) plain CFB with explicit IV (SKESK v4, secret key protection)
+                let iv = rbytes(&mut rng, bs);
+                let mut w = pt.clone();
+                rfc::sym::cfb_encrypt(alg, &key, &iv, &mut w).expect("ref cfb");
+                cov(ctx, "cfb-iv", alg, 0, 0, 0, 0, "-", &lc, "both");
+                let mut buf = pt.clone();
+                if let Some(r) = lib(ctx, "C12/cfb-iv", &rp, || a.encrypt_with_iv_regular(&key, &iv, &mut buf)) {
+                    if r.is_err() || buf != w {
+                        ctx.violation("C12/cfb-iv/encrypt-differs", format!("encrypt_with_iv_regular alg {alg} len {n} iv {} -> {:?}", hexs(&iv), r.err().map(|e| e.to_string())), rp.clone());
+                    }
+                }
+                let mut buf = w.clone();
+                if let Some(r) = lib(ctx, "C12/cfb-iv", &rp, || a.decrypt_with_iv_regular(&key, &iv, &mut buf)) {
+                    if r.is_err() || buf != pt {
+                        ctx.violation("C12/cfb-iv/decrypt-differs", format!("decrypt_with_iv_regular alg {alg} len {n} iv {}", hexs(&iv)), rp.clone());
+                    }
+                }
+            }
+            if gi == 0 && alg == 9 {
+                ctx.sample(json!({"family": "cfb-raw", "alg": alg, "lengths": group}));
+            }
+        }
+    }
+}
+// ---------------------------------------------------------------------------------------------
+// (1) SEIPDv1 / SED at the message API
+
+fn msg_payload_lengths(bs: usize, dense: bool) -> Vec<usize> {
+    let mut v = vec![0usize, 1, bs - 1, bs, bs + 1, 2 * bs, 100, 185, 186, 187];
+    if dense {
+        // inner stream = literal header (9 octets for these sizes) + payload, around 8192 and 16384
+        v.extend(8192 - 12..=8192 - 6);
+        v.extend([8192 - 1, 8192, 8192 + 1, 16384 - 10, 16384 - 9, 16384 - 8, 16384 + 7]);
+    } else {
+        v.extend([8192 - 10, 8192 - 9, 8192 - 8, 16384 - 9]);
+    }
+    v
+}
+
+fn fam_seipd1_msg(ctx: &mut Ctx) {
+    for &alg in rfc::sym::ALL_CIPHERS.iter() {
+        let bs = rfc::sym::block_size(alg).unwrap();
+        let ks = rfc::sym::key_size(alg).unwrap();
+        let dense = !ctx.quick() || alg == 7 || alg == 3;
+        let lens = msg_payload_lengths(bs, dense);
+        for (gi, group) in lens.chunks(6).enumerate() {
+            if !ctx.mine() {
+                continue;
+            }
+            describe_case(&format!("seipd1 msg alg {alg} lens {group:?}"));
+            for (li, &n) in group.iter().enumerate() {
+                let mut rng = ctx.rng("seipd1.msg", (alg as u64) << 32 | n as u64);
+                let key = rbytes(&mut rng, ks);
+                let payload = rbytes(&mut rng, n);
+                let rp = json!({"family": "seipd1-msg", "alg": alg, "len": n, "key": hexs(&key), "payload": hexs(&payload)});
+                let lc = len_class(n + 9, if n >= 4096 { 8192 } else { bs });
+
+                // ---- library -> reference, fixed-length source and reader source (partial bodies)
+                for from_reader in [false, true] {
+                    let dir = if from_reader { "lib(reader)->ref" } else { "lib->ref" };
+                    cov(ctx, "seipd1", alg, 0, 0, 0, 0, "-", &lc, dir);
+                    let r = lib(ctx, "C12/seipd1/lib-to-ref", &rp, || {
+                        let sk = RawSessionKey::from(key.clone());
+                        if from_reader {
+                            let mut b = MessageBuilder::from_reader("", &payload[..]).seipd_v1(rng.clone(), sym(alg));
+                            b.set_session_key(sk)?;
+                            b.to_vec(rng.clone())
+                        } else {
+                            let mut b = MessageBuilder::from_bytes("", payload.clone()).seipd_v1(rng.clone(), sym(alg));
+                            b.set_session_key(sk)?;
+                            b.to_vec(rng.clone())
+                        }
+                    });
+                    let Some(r) = r else { continue };
+                    let out = match r {
+                        Ok(o) => o,
+                        Err(e) => {
+                            ctx.violation("C12/seipd1/lib-to-ref/build-error", format!("alg {alg} len {n}: {e}"), rp.clone());
+                            continue;
+                        }
+                    };
+                    let verdict = (|| -> Result<(), (&'static str, String)> {
+                        let pk = deframe(&out).map_err(|e| ("framing", e))?;
+                        if pk.len() != 1 || pk[0].tag != 18 || pk[0].body.first() != Some(&1) {
+                            return Err(("framing", format!("expected one SEIPDv1 packet, got tags {:?}", pk.iter().map(|p| p.tag).collect::<Vec<_>>())));
+                        }
+                        let inner = rfc::sym::seipd_v1_decrypt(alg, &key, &pk[0].body[1..]).map_err(|e| {
+                            (
+                                match e {
+                                    rfc::sym::V1Error::Mdc => "mdc",
+                                    rfc::sym::V1Error::QuickCheck => "quick-check",
+                                    _ => "undecryptable",
+                                },
+                                format!("{e:?}"),
+                            )
+                        })?;
+                        let got = parse_literal(&inner).map_err(|e| ("inner-stream", e))?;
+                        if got != payload {
+                            return Err(("wrong-plaintext", format!("{} vs {} bytes", got.len(), payload.len())));
+                        }
+                        Ok(())
+                    })();
+                    if let Err((s, d)) = verdict {
+                        ctx.violation(
+                            format!("C12/seipd1/lib-to-ref/{s}"),
+                            format!("reference cannot read the library's SEIPDv1 message (alg {alg}, payload {n}, reader source {from_reader}): {d}"),
+                            rp.clone(),
+                        );
+                    }
+                }
+
+                // ---- reference -> library
+                let inner = ref_literal(&payload);
+                let prefix = rbytes(&mut rng, bs);
+                let ct = rfc::sym::seipd_v1_encrypt(alg, &key, &prefix, &inner).expect("ref seipd1");
+                let mut body = vec![1u8];
+                body.extend(ct);
+                let form = outer_form(gi + li + alg as usize, body.len(), 18);
+                let bytes = frame(18, &body, &form).expect("frame 18");
+                for (mi, mode) in [Seipdv1ReadMode::default(), Seipdv1ReadMode::Streaming].into_iter().enumerate() {
+                    cov(ctx, "seipd1", alg, 0, 0, 0, 0, form_name(&form), &lc, if mi == 0 { "ref->lib(checkfirst)" } else { "ref->lib(streaming)" });
+                    let r = lib(ctx, "C12/seipd1/ref-to-lib", &rp, || {
+                        hooks::record(|| {
+                            let sk = PlainSessionKey::V3_4 { sym_alg: sym(alg), key: RawSessionKey::from(key.clone()) };
+                            lib_read_msg(&bytes, ring_sk(sk, DecryptionOptions::new().set_seipdv1_read_mode(mode)))
+                        })
+                    });
+                    let Some((r, ev)) = r else { continue };
+                    note_hooks(ctx, &ev);
+                    match r {
+                        Ok(d) if d == payload => {}
+                        Ok(d) => ctx.violation("C12/seipd1/ref-to-lib/wrong-plaintext", format!("alg {alg} len {n}: got {} bytes", d.len()), rp.clone()),
+                        Err(e) => ctx.violation(
+                            "C12/seipd1/ref-to-lib/rejected",
+                            format!("library rejects a reference-made SEIPDv1 message (alg {alg}, payload {n}, framing {}, mode {mi}): {e}", form_name(&form)),
+                            rp.clone(),
+                        ),
+                    }
+                }
+
+                // ---- SED: reference -> library (legacy option)
+                let sed = rfc::sym::sed_encrypt(alg, &key, &prefix, &inner).expect("ref sed");
+                let form = outer_form(gi + li + alg as usize + 3, sed.len(), 9);
+                let bytes = frame(9, &sed, &form).expect("frame 9");
+                cov(ctx, "sed", alg, 0, 0, 0, 0, form_name(&form), &lc, "ref->lib");
+                let r = lib(ctx, "C12/sed/ref-to-lib", &rp, || {
+                    let sk = PlainSessionKey::V3_4 { sym_alg: sym(alg), key: RawSessionKey::from(key.clone()) };
+                    lib_read_msg(&bytes, ring_sk(sk, DecryptionOptions::new().enable_legacy()))
+                });
+                match r {
+                    Some(Ok(d)) if d == payload => {}
+                    Some(Ok(d)) => ctx.violation("C12/sed/ref-to-lib/wrong-plaintext", format!("alg {alg} len {n}: got {} bytes", d.len()), rp.clone()),
+                    Some(Err(e)) => ctx.violation(
+                        "C12/sed/ref-to-lib/rejected",
+                        format!("library (legacy enabled) rejects a reference-made SED message (alg {alg}, payload {n}, framing {}): {e}", form_name(&form)),
+                        rp.clone(),
+                    ),
+                    None => {}
+                }
+                if alg == 9 && n == 186 {
+                    ctx.sample(json!({"family": "seipd1-msg", "alg": alg, "payload_len": n, "key": hexs(&key), "reference_message": hexs(&bytes)}));
+                }
+            }
+        }
+    }
+}
+// ---------------------------------------------------------------------------------------------
+// (2) SEIPDv2
+
+fn v2err_sym(e: &rfc::sym::V2Error) -> &'static str {
+    match e {
+        rfc::sym::V2Error::Auth(0) => "chunk0-auth",
+        rfc::sym::V2Error::Auth(_) => "later-chunk-auth",
+        rfc::sym::V2Error::FinalTag => "final-tag",
+        rfc::sym::V2Error::Malformed => "malformed",
+        rfc::sym::V2Error::Unsupported => "unsupported",
+    }
+}
+
+/// Judges a library-made SEIPDv2 packet body against the reference. `want_inner` is the expected
+/// plaintext of the container. Returns Err((symptom, detail)).
+fn judge_v2_body(body: &[u8], s: u8, a: u8, co: u8, sk: &[u8], want_inner: &[u8]) -> Result<(), (&'static str, String)> {
+    if body.len() < 36 + 16 || body[..4] != [2, s, a, co] {
+        return Err(("header", format!("header octets {}", hexs(&body[..body.len().min(4)]))));
+    }
+    let mut salt = [0u8; 32];
+    salt.copy_from_slice(&body[4..36]);
+    // message key / IV through the first chunk
+    let (mk, iv) = rfc::sym::seipd_v2_keys(s, a, co, &salt, sk).ok_or(("unsupported", String::new()))?;
+    let cs = 1usize << (co as usize + 6);
+    if !want_inner.is_empty() {
+        let first_len = want_inner.len().min(cs) + 16;
+        let mut nonce = iv.clone();
+        nonce.extend([0u8; 8]);
+        let first = body.get(36..36 + first_len).ok_or(("length", "first chunk missing".to_string()))?;
+        match rfc::sym::aead_open(s, a, &mk, &nonce, &[0xD2, 2, s, a, co], first) {
+            Some(Ok(p)) if p == want_inner[..first_len - 16] => {}
+            Some(Ok(_)) => return Err(("wrong-plaintext", "first chunk".into())),
+            _ => return Err(("chunk0-auth", "first chunk does not open under HKDF(salt, session key, info=D2 02 sym aead chunk) key/IV, nonce = IV || be64(0), AD = info".into())),
+        }
+    }
+    let inner = rfc::sym::seipd_v2_decrypt(body, sk).map_err(|e| (v2err_sym(&e), format!("{e:?}")))?;
+    if inner != want_inner {
+        return Err(("wrong-plaintext", format!("{} vs {} octets", inner.len(), want_inner.len())));
+    }
+    let again = rfc::sym::seipd_v2_encrypt(s, a, co, &salt, sk, &inner).ok_or(("unsupported", String::new()))?;
+    if again != body {
+        return Err(("bytes-differ", format!("reference re-encryption under the same salt differs ({} vs {} octets)", again.len(), body.len())));
+    }
+    Ok(())
+}
+
+fn v2_lengths(cs: usize, full: bool) -> Vec<usize> {
+    if full {
+        let mut v = vec![0, 1, cs - 1, cs, cs + 1, 2 * cs - 1, 2 * cs, 2 * cs + 1, 3 * cs - 1, 3 * cs, 3 * cs + 5, 2 * (cs + 16), 4 * (cs + 16) - 16];
+        if cs == 64 {
+            v.push(cs * 258 + 3); // chunk index needs a second octet of the big-endian counter
+        }
+        v
+    } else {
+        vec![cs - 1, cs, 2 * cs + 1, 3 * cs]
+    }
+}
+
+fn fam_seipd2_raw(ctx: &mut Ctx) {
+    let max_co: u8 = ctx.qt(8, 16);
+    for &s in &AES {
+        for &a in &AEADS {
+            for co in 0..=max_co {
+                if !ctx.mine() {
+                    continue;
+                }
+                describe_case(&format!("seipd2 raw sym {s} aead {a} chunk {co}"));
+                let cs = 1usize << (co as usize + 6);
+                let full = if ctx.quick() { co <= 6 } else { co <= 12 };
+                let ks = rfc::sym::key_size(s).unwrap();
+                for &n in &v2_lengths(cs, full) {
+                    let mut rng = ctx.rng("seipd2.raw", ((s as u64) << 40) | ((a as u64) << 32) | ((co as u64) << 24) ^ n as u64);
+                    let key = rbytes(&mut rng, ks);
+                    let pt = rbytes(&mut rng, n);
+                    let rp = json!({"family": "seipd2-raw", "sym": s, "aead": a, "chunk": co, "len": n, "key": hexs(&key), "pt": hexs(&pt[..n.min(256)])});
+                    let lc = len_class(n, cs);
+                    // library -> reference
+                    cov(ctx, "seipd2-raw", s, a, co, 0, 0, "-", &lc, "lib->ref");
+                    let r = lib(ctx, "C12/seipd2/raw", &rp, || {
+                        hooks::record(|| {
+                            SymEncryptedProtectedData::encrypt_seipdv2(rng.clone(), sym(s), aead(a), chunk(co), &key, &pt).and_then(|p| p.to_bytes())
+                        })
+                    });
+                    if let Some((r, ev)) = r {
+                        note_hooks(ctx, &ev);
+                        match r {
+                            Ok(body) => {
+                                if let Err((sy, d)) = judge_v2_body(&body, s, a, co, &key, &pt) {
+                                    ctx.violation(
+                                        format!("C12/seipd2/raw/lib-to-ref/{sy}"),
+                                        format!("library SEIPDv2 body is not the RFC 9580 5.13.2 ciphertext (sym {s}, aead {a}, chunk octet {co}, len {n}): {d}"),
+                                        rp.clone(),
+                                    );
+                                }
+                            }
+                            Err(e) => ctx.violation("C12/seipd2/raw/lib-to-ref/error", format!("{e}"), rp.clone()),
+                        }
+                    }
+                    // reference -> library
+                    let salt: [u8; 32] = rng.gen();
+                    let body = rfc::sym::seipd_v2_encrypt(s, a, co, &salt, &key, &pt).expect("ref seipd2");
+                    cov(ctx, "seipd2-raw", s, a, co, 0, 0, "-", &lc, "ref->lib");
+                    let r = lib(ctx, "C12/seipd2/raw", &rp, || {
+                        hooks::record(|| {
+                            SymEncryptedProtectedData::try_from_reader(
+                                PacketHeader::new_fixed(Tag::SymEncryptedProtectedData, body.len() as u32),
+                                &body[..],
+                            )
+                            .and_then(|p| p.decrypt(&key, None, Seipdv1ReadMode::default()))
+                        })
+                    });
+                    if let Some((r, ev)) = r {
+                        note_hooks(ctx, &ev);
+                        match r {
+                            Ok(out) if out == pt => {}
+                            Ok(out) => ctx.violation("C12/seipd2/raw/ref-to-lib/wrong-plaintext", format!("sym {s} aead {a} chunk {co} len {n}: got {} octets", out.len()), rp.clone()),
+                            Err(e) => ctx.violation(
+                                "C12/seipd2/raw/ref-to-lib/rejected",
+                                format!("library rejects the reference SEIPDv2 body (sym {s}, aead {a}, chunk octet {co}, len {n}): {e}"),
+                                rp.clone(),
+                            ),
+                        }
+                    }
+                }
+                if s == 9 && a == 2 && co == 0 {
+                    ctx.sample(json!({"family": "seipd2-raw", "sym": s, "aead": a, "chunk_octet": co, "lengths": v2_lengths(cs, full)}));
+                }
+            }
+        }
+    }
+}
+
+/// payload length whose literal packet is exactly `target` octets long (None if unreachable)
+fn payload_for_inner(target: usize) -> Option<usize> {
+    for hdr in [2usize, 3, 6] {
+        if target < hdr + 6 {
+            continue;
+        }
+        let n = target - hdr - 6;
+        if ref_literal(&vec![0u8; n]).len() == target {
+            return Some(n);
+        }
+    }
+    None
+}
+
+fn fam_seipd2_msg(ctx: &mut Ctx) {
+    let chunks: Vec<u8> = if ctx.quick() { vec![0, 2, 6] } else { (0u8..=12).collect() };
+    for &s in &AES {
+        for &a in &AEADS {
+            for &co in &chunks {
+                if !ctx.mine() {
+                    continue;
+                }
+                describe_case(&format!("seipd2 msg sym {s} aead {a} chunk {co}"));
+                let cs = 1usize << (co as usize + 6);
+                let ks = rfc::sym::key_size(s).unwrap();
+                let mut targets = vec![8usize, cs - 1, cs, cs + 1, 2 * cs, 2 * cs + 1, 3 * cs - 1, 3 * cs];
+                targets.retain(|t| *t >= 8);
+                targets.dedup();
+                for (ti, &t) in targets.iter().enumerate() {
+                    let Some(n) = payload_for_inner(t) else { continue };
+                    let mut rng = ctx.rng("seipd2.msg", ((s as u64) << 40) | ((a as u64) << 32) | ((co as u64) << 24) ^ t as u64);
+                    let key = rbytes(&mut rng, ks);
+                    let payload = rbytes(&mut rng, n);
+                    let rp = json!({"family": "seipd2-msg", "sym": s, "aead": a, "chunk": co, "payload_len": n, "key": hexs(&key), "payload": hexs(&payload[..n.min(256)])});
+                    let lc = len_class(t, cs);
+                    for from_reader in [false, true] {
+                        let dir = if from_reader { "lib(reader)->ref" } else { "lib->ref" };
+                        cov(ctx, "seipd2", s, a, co, 0, 0, "-", &lc, dir);
+                        let r = lib(ctx, "C12/seipd2/lib-to-ref", &rp, || {
+                            let sk = RawSessionKey::from(key.clone());
+                            if from_reader {
+                                let mut b = MessageBuilder::from_reader("", &payload[..]).seipd_v2(rng.clone(), sym(s), aead(a), chunk(co));
+                                b.set_session_key(sk)?;
+                                b.to_vec(rng.clone())
+                            } else {
+                                let mut b = MessageBuilder::from_bytes("", payload.clone()).seipd_v2(rng.clone(), sym(s), aead(a), chunk(co));
+                                b.set_session_key(sk)?;
+                                b.to_vec(rng.clone())
+                            }
+                        });
+                        let Some(r) = r else { continue };
+                        let out = match r {
+                            Ok(o) => o,
+                            Err(e) => {
+                                ctx.violation("C12/seipd2/lib-to-ref/build-error", format!("sym {s} aead {a} chunk {co} payload {n}: {e}"), rp.clone());
+                                continue;
+                            }
+                        };
+                        let verdict = (|| -> Result<(), (&'static str, String)> {
+                            let pk = deframe(&out).map_err(|e| ("framing", e))?;
+                            if pk.len() != 1 || pk[0].tag != 18 {
+                                return Err(("framing", format!("tags {:?}", pk.iter().map(|p| p.tag).collect::<Vec<_>>())));
+                            }
+                            let inner = rfc::sym::seipd_v2_decrypt(&pk[0].body, &key).map_err(|e| (v2err_sym(&e), format!("{e:?}")))?;
+                            let got = parse_literal(&inner).map_err(|e| ("inner-stream", e))?;
+                            if got != payload {
+                                return Err(("wrong-plaintext", format!("{} vs {} octets", got.len(), payload.len())));
+                            }
+                            judge_v2_body(&pk[0].body, s, a, co, &key, &inner)
+                        })();
+                        if let Err((sy, d)) = verdict {
+                            ctx.violation(
+                                format!("C12/seipd2/lib-to-ref/{sy}"),
+                                format!("reference cannot read the library's SEIPDv2 message (sym {s}, aead {a}, chunk octet {co}, payload {n}, reader source {from_reader}): {d}"),
+                                rp.clone(),
+                            );
+                        }
+                    }
+                    // reference -> library
+                    let inner = ref_literal(&payload);
+                    let salt: [u8; 32] = rng.gen();
+                    let body = rfc::sym::seipd_v2_encrypt(s, a, co, &salt, &key, &inner).expect("ref seipd2");
+                    let form = outer_form(ti + co as usize + a as usize, body.len(), 18);
+                    let bytes = frame(18, &body, &form).expect("frame");
+                    cov(ctx, "seipd2", s, a, co, 0, 0, form_name(&form), &lc, "ref->lib");
+                    let r = lib(ctx, "C12/seipd2/ref-to-lib", &rp, || {
+                        hooks::record(|| {
+                            let sk = PlainSessionKey::V6 { key: RawSessionKey::from(key.clone()) };
+                            lib_read_msg(&bytes, ring_sk(sk, DecryptionOptions::new()))
+                        })
+                    });
+                    if let Some((r, ev)) = r {
+                        note_hooks(ctx, &ev);
+                        match r {
+                            Ok(d) if d == payload => {}
+                            Ok(d) => ctx.violation("C12/seipd2/ref-to-lib/wrong-plaintext", format!("sym {s} aead {a} chunk {co}: got {} octets", d.len()), rp.clone()),
+                            Err(e) => ctx.violation(
+                                "C12/seipd2/ref-to-lib/rejected",
+                                format!("library rejects a reference-made SEIPDv2 message (sym {s}, aead {a}, chunk octet {co}, payload {n}, framing {}): {e}", form_name(&form)),
+                                rp.clone(),
+                            ),
+                        }
+                    }
+                }
+            }
+        }
+    }
+}
+// ---------------------------------------------------------------------------------------------
+// (3) SKESK v4 / v6
+
+/// S2K specifiers used for SKESK / key protection sweeps: kind index -> specifier
+fn mk_s2k(rng: &mut ChaCha8Rng, kind: usize, hash: u8) -> RefS2k {
+    match kind % 4 {
+        0 => RefS2k::Salted { hash, salt: rng.gen() },
+        1 => RefS2k::Iterated { hash, salt: rng.gen(), count: [0u8, 17, 96, 111, 31][rng.gen_range(0..5)] },
+        2 => {
+            let p = [1u8, 2, 4][rng.gen_range(0..3)];
+            let m = 3 + (p as f32).log2().ceil() as u8 + rng.gen_range(0..3u8);
+            RefS2k::Argon2 { salt: rng.gen(), t: rng.gen_range(1..=3), p, m }
+        }
+        _ => RefS2k::Simple { hash },
+    }
+}
+
+fn fam_skesk(ctx: &mut Ctx) {
+    let payload = b"C12 skesk payload \x00\x01\x02 with some length to span blocks".to_vec();
+    // ---- v4: every cipher x S2K kind (library writes only salted kinds with strong hashes)
+    for &alg in rfc::sym::ALL_CIPHERS.iter() {
+        if !ctx.mine() {
+            continue;
+        }
+        describe_case(&format!("skesk v4 alg {alg}"));
+        let ks = rfc::sym::key_size(alg).unwrap();
+        for kind in 0..3usize {
+            for (hi, &h) in STRONG_HASHES.iter().enumerate() {
+                if kind == 2 && hi > 0 {
+                    continue;
+                }
+                let mut rng = ctx.rng("skesk4.l2r", ((alg as u64) << 16) | ((kind as u64) << 8) | h as u64);
+                let r = mk_s2k(&mut rng, kind, h);
+                let (k, hh, _) = s2k_kind(&r);
+                let pw = { let n = rng.gen_range(0..40); rbytes(&mut rng, n) };
+                let rp = json!({"family": "skesk4-lib", "alg": alg, "s2k": hexs(&r.encode()), "pw": hexs(&pw)});
+                cov(ctx, "skesk4", alg, 0, 0, k, hh, "-", "-", "lib->ref");
+                let res = lib(ctx, "C12/skesk4/lib-to-ref", &rp, || {
+                    let mut b = MessageBuilder::from_bytes("", payload.clone()).seipd_v1(rng.clone(), sym(alg));
+                    b.encrypt_with_password(lib_s2k(&r), &Password::from(&pw[..]))?;
+                    let sk = b.session_key().as_ref().to_vec();
+                    b.to_vec(rng.clone()).map(|o| (sk, o))
+                });
+                let Some(res) = res else { continue };
+                let (sk, out) = match res {
+                    Ok(x) => x,
+                    Err(e) => {
+                        ctx.violation("C12/skesk4/lib-to-ref/build-error", format!("alg {alg} s2k {r:?}: {e}"), rp.clone());
+                        continue;
+                    }
+                };
+                let verdict = (|| -> Result<(), (&'static str, String)> {
+                    let pk = deframe(&out).map_err(|e| ("framing", e))?;
+                    if pk.len() != 2 || pk[0].tag != 3 || pk[1].tag != 18 {
+                        return Err(("framing", format!("tags {:?}", pk.iter().map(|p| p.tag).collect::<Vec<_>>())));
+                    }
+                    let (a2, k2) = rfc::sym::skesk_v4_decrypt(&pk[0].body, &pw).ok_or(("unparsable", hexs(&pk[0].body)))?;
+                    if a2 != alg || k2 != sk {
+                        return Err(("wrong-session-key", format!("reference recovers alg {a2} key {} but the builder used alg {alg} key {}", hexs(&k2), hexs(&sk))));
+                    }
+                    let want = rfc::sym::skesk_v4_encode(alg, &r, &pw, Some((alg, &sk))).ok_or(("unsupported", String::new()))?;
+                    if want != pk[0].body {
+                        return Err(("bytes-differ", format!("lib {} ref {}", hexs(&pk[0].body), hexs(&want))));
+                    }
+                    let inner = rfc::sym::seipd_v1_decrypt(a2, &k2, &pk[1].body[1..]).map_err(|e| ("seipd", format!("{e:?}")))?;
+                    if parse_literal(&inner).map_err(|e| ("inner-stream", e))? != payload {
+                        return Err(("wrong-plaintext", String::new()));
+                    }
+                    Ok(())
+                })();
+                if let Err((sy, d)) = verdict {
+                    ctx.violation(
+                        format!("C12/skesk4/lib-to-ref/{sy}"),
+                        format!("password-encrypted SEIPDv1 message from the library not readable with the password under the RFC (alg {alg}, s2k {r:?}): {d}"),
+                        rp.clone(),
+                    );
+                }
+            }
+        }
+        // reference -> library: all four S2K kinds, weak hashes included (legal to read in v4),
+        // with and without an encrypted session key
+        for kind in 0..4usize {
+            for (hi, &h) in HASHES.iter().enumerate() {
+                if kind == 2 && hi > 0 {
+                    continue;
+                }
+                for with_esk in [true, false] {
+                    let mut rng = ctx.rng("skesk4.r2l", ((alg as u64) << 24) | ((kind as u64) << 16) | ((h as u64) << 8) | with_esk as u64);
+                    let r = mk_s2k(&mut rng, kind, h);
+                    let (k, hh, _) = s2k_kind(&r);
+                    let pw = { let n = rng.gen_range(0..40); rbytes(&mut rng, n) };
+                    // message cipher may differ from the SKESK cipher when a session key is carried
+                    let malg = if with_esk { rfc::sym::ALL_CIPHERS[rng.gen_range(0..11)] } else { alg };
+                    let sk = if with_esk { rbytes(&mut rng, rfc::sym::key_size(malg).unwrap()) } else { r.derive(&pw, ks).expect("derive") };
+                    let body3 = rfc::sym::skesk_v4_encode(alg, &r, &pw, with_esk.then_some((malg, &sk[..]))).expect("ref skesk4");
+                    let mbs = rfc::sym::block_size(malg).unwrap();
+                    let prefix = rbytes(&mut rng, mbs);
+                    let mut body18 = vec![1u8];
+                    body18.extend(rfc::sym::seipd_v1_encrypt(malg, &sk, &prefix, &ref_literal(&payload)).expect("ref seipd1"));
+                    let mut bytes = frame(3, &body3, &LenForm::NewMin).unwrap();
+                    bytes.extend(frame(18, &body18, &LenForm::NewMin).unwrap());
+                    let rp = json!({"family": "skesk4-ref", "alg": alg, "msg_alg": malg, "s2k": hexs(&r.encode()), "pw": hexs(&pw), "message": hexs(&bytes)});
+                    cov(ctx, "skesk4", alg, 0, 0, k, hh, if with_esk { "esk" } else { "no-esk" }, "-", "ref->lib");
+                    let res = lib(ctx, "C12/skesk4/ref-to-lib", &rp, || {
+                        let pwd = Password::from(&pw[..]);
+                        let ring = TheRing { message_password: vec![&pwd], ..Default::default() };
+                        lib_read_msg(&bytes, ring)
+                    });
+                    match res {
+                        Some(Ok(d)) if d == payload => {}
+                        Some(Ok(_)) => ctx.violation("C12/skesk4/ref-to-lib/wrong-plaintext", format!("alg {alg} s2k {r:?}"), rp),
+                        Some(Err(e)) => ctx.violation(
+                            format!("C12/skesk4/ref-to-lib/rejected/{}", if with_esk { "esk" } else { "no-esk" }),
+                            format!("library cannot read a reference-made SKESKv4+SEIPDv1 message with the password (skesk alg {alg}, message alg {malg}, s2k {r:?}): {e}"),
+                            rp,
+                        ),
+                        None => {}
+                    }
+                }
+            }
+        }
+    }
+    // ---- v6
+    for &s in &AES {
+        for &a in &AEADS {
+            if !ctx.mine() {
+                continue;
+            }
+            describe_case(&format!("skesk v6 sym {s} aead {a}"));
+            let ks = rfc::sym::key_size(s).unwrap();
+            let ns = rfc::sym::aead_nonce_len(a).unwrap();
+            for kind in 0..3usize {
+                for (hi, &h) in STRONG_HASHES.iter().enumerate() {
+                    if kind == 2 && hi > 0 {
+                        continue;
+                    }
+                    let mut rng = ctx.rng("skesk6", ((s as u64) << 24) | ((a as u64) << 16) | ((kind as u64) << 8) | h as u64);
+                    let r = mk_s2k(&mut rng, kind, h);
+                    let (k, hh, _) = s2k_kind(&r);
+                    let pw = { let n = rng.gen_range(0..40); rbytes(&mut rng, n) };
+                    let co = [0u8, 2, 6][rng.gen_range(0..3)];
+                    let rp = json!({"family": "skesk6", "sym": s, "aead": a, "s2k": hexs(&r.encode()), "pw": hexs(&pw)});
+                    // library -> reference
+                    cov(ctx, "skesk6", s, a, co, k, hh, "-", "-", "lib->ref");
+                    let res = lib(ctx, "C12/skesk6/lib-to-ref", &rp, || {
+                        let mut b = MessageBuilder::from_bytes("", payload.clone()).seipd_v2(rng.clone(), sym(s), aead(a), chunk(co));
+                        b.encrypt_with_password(rng.clone(), lib_s2k(&r), &Password::from(&pw[..]))?;
+                        let sk = b.session_key().as_ref().to_vec();
+                        b.to_vec(rng.clone()).map(|o| (sk, o))
+                    });
+                    if let Some(res) = res {
+                        match res {
+                            Err(e) => ctx.violation("C12/skesk6/lib-to-ref/build-error", format!("sym {s} aead {a} s2k {r:?}: {e}"), rp.clone()),
+                            Ok((sk, out)) => {
+                                let verdict = (|| -> Result<(), (&'static str, String)> {
+                                    let pk = deframe(&out).map_err(|e| ("framing", e))?;
+                                    if pk.len() != 2 || pk[0].tag != 3 || pk[1].tag != 18 {
+                                        return Err(("framing", format!("tags {:?}", pk.iter().map(|p| p.tag).collect::<Vec<_>>())));
+                                    }
+                                    let b3 = &pk[0].body;
+                                    let k2 = rfc::sym::skesk_v6_decrypt(b3, &pw).ok_or(("unparsable", hexs(b3)))?.map_err(|_| {
+                                        ("auth", "AEAD tag does not verify under HKDF(S2K(pw), info = C3 06 sym aead) with AD = info".to_string())
+                                    })?;
+                                    if k2 != sk {
+                                        return Err(("wrong-session-key", format!("{} vs {}", hexs(&k2), hexs(&sk))));
+                                    }
+                                    let s2k_len = b3[4] as usize;
+                                    let iv = &b3[5 + s2k_len..5 + s2k_len + ns];
+                                    let want = rfc::sym::skesk_v6_encode(s, a, &r, &pw, iv, &sk).ok_or(("unsupported", String::new()))?;
+                                    if &want != b3 {
+                                        return Err(("bytes-differ", format!("lib {} ref {}", hexs(b3), hexs(&want))));
+                                    }
+                                    let inner = rfc::sym::seipd_v2_decrypt(&pk[1].body, &k2).map_err(|e| ("seipd", format!("{e:?}")))?;
+                                    if parse_literal(&inner).map_err(|e| ("inner-stream", e))? != payload {
+                                        return Err(("wrong-plaintext", String::new()));
+                                    }
+                                    Ok(())
+                                })();
+                                if let Err((sy, d)) = verdict {
+                                    ctx.violation(
+                                        format!("C12/skesk6/lib-to-ref/{sy}"),
+                                        format!("password-encrypted SEIPDv2 message from the library not readable with the password under the RFC (sym {s}, aead {a}, s2k {r:?}): {d}"),
+                                        rp.clone(),
+                                    );
+                                }
+                            }
+                        }
+                    }
+                    // reference -> library
+                    let sk = rbytes(&mut rng, ks);
+                    let iv = rbytes(&mut rng, ns);
+                    let body3 = rfc::sym::skesk_v6_encode(s, a, &r, &pw, &iv, &sk).expect("ref skesk6");
+                    let salt: [u8; 32] = rng.gen();
+                    let body18 = rfc::sym::seipd_v2_encrypt(s, a, co, &salt, &sk, &ref_literal(&payload)).expect("ref seipd2");
+                    let mut bytes = frame(3, &body3, &LenForm::NewMin).unwrap();
+                    bytes.extend(frame(18, &body18, &LenForm::NewMin).unwrap());
+                    let rp = json!({"family": "skesk6-ref", "sym": s, "aead": a, "s2k": hexs(&r.encode()), "pw": hexs(&pw), "message": hexs(&bytes)});
+                    cov(ctx, "skesk6", s, a, co, k, hh, "-", "-", "ref->lib");
+                    let res = lib(ctx, "C12/skesk6/ref-to-lib", &rp, || {
+                        let pwd = Password::from(&pw[..]);
+                        let ring = TheRing { message_password: vec![&pwd], ..Default::default() };
+                        lib_read_msg(&bytes, ring)
+                    });
+                    match res {
+                        Some(Ok(d)) if d == payload => {}
+                        Some(Ok(_)) => ctx.violation("C12/skesk6/ref-to-lib/wrong-plaintext", format!("sym {s} aead {a} s2k {r:?}"), rp),
+                        Some(Err(e)) => ctx.violation(
+                            "C12/skesk6/ref-to-lib/rejected",
+                            format!("library cannot read a reference-made SKESKv6+SEIPDv2 message with the password (sym {s}, aead {a}, s2k {r:?}): {e}"),
+                            rp,
+                        ),
+                        None => {}
+                    }
+                    if s == 7 && a == 2 && kind == 1 {
+                        ctx.sample(json!({"family": "skesk6", "sym": s, "aead": a, "s2k": hexs(&r.encode()), "password": hexs(&pw), "reference_message": hexs(&bytes)}));
+                    }
+                }
+            }
+        }
+    }
+}
+// ---------------------------------------------------------------------------------------------
+// (5) secret key protection (S2K usage 253 / 254 / 255 / legacy)
+
+trait SecPkt: Clone + Serialize {
+    const TAG: u8;
+    fn lock(&mut self, pw: &Password, p: S2kParams) -> pgp::errors::Result<()>;
+    fn unlock_inplace(&mut self, pw: &Password) -> pgp::errors::Result<()>;
+    fn parse(body: &[u8]) -> pgp::errors::Result<Self>;
+}
+impl SecPkt for pgp::packet::SecretKey {
+    const TAG: u8 = 5;
+    fn lock(&mut self, pw: &Password, p: S2kParams) -> pgp::errors::Result<()> {
+        self.set_password_with_s2k(pw, p)
+    }
+    fn unlock_inplace(&mut self, pw: &Password) -> pgp::errors::Result<()> {
+        self.remove_password(pw)
+    }
+    fn parse(body: &[u8]) -> pgp::errors::Result<Self> {
+        Self::try_from_reader(PacketHeader::new_fixed(Tag::SecretKey, body.len() as u32), body)
+    }
+}
+impl SecPkt for pgp::packet::SecretSubkey {
+    const TAG: u8 = 7;
+    fn lock(&mut self, pw: &Password, p: S2kParams) -> pgp::errors::Result<()> {
+        self.set_password_with_s2k(pw, p)
+    }
+    fn unlock_inplace(&mut self, pw: &Password) -> pgp::errors::Result<()> {
+        self.remove_password(pw)
+    }
+    fn parse(body: &[u8]) -> pgp::errors::Result<Self> {
+        Self::try_from_reader(PacketHeader::new_fixed(Tag::SecretSubkey, body.len() as u32), body)
+    }
+}
+
+fn lib_prot(p: &RefProtection) -> S2kParams {
+    match p {
+        RefProtection::None => S2kParams::Unprotected,
+        RefProtection::LegacyCipher { cipher, iv } => S2kParams::LegacyCfb { sym_alg: sym(*cipher), iv: iv.clone().into() },
+        RefProtection::MalleableCfb { cipher, s2k, iv } => S2kParams::MalleableCfb { sym_alg: sym(*cipher), s2k: lib_s2k(s2k), iv: iv.clone().into() },
+        RefProtection::Cfb { cipher, s2k, iv } => S2kParams::Cfb { sym_alg: sym(*cipher), s2k: lib_s2k(s2k), iv: iv.clone().into() },
+        RefProtection::Aead { cipher, aead: a, s2k, nonce } => S2kParams::Aead {
+            sym_alg: sym(*cipher),
+            aead_mode: aead(*a),
+            s2k: lib_s2k(s2k),
+            nonce: nonce.clone().into(),
+        },
+    }
+}
+
+fn prot_desc(p: &RefProtection) -> (&'static str, u8, u8, u8, u8) {
+    // (name, cipher, aead, s2k kind, hash)
+    match p {
+        RefProtection::None => ("none", 0, 0, 0, 0),
+        RefProtection::LegacyCipher { cipher, .. } => ("legacy", *cipher, 0, 0, 1),
+        RefProtection::MalleableCfb { cipher, s2k, .. } => ("mcfb", *cipher, 0, s2k_kind(s2k).0, s2k_kind(s2k).1),
+        RefProtection::Cfb { cipher, s2k, .. } => ("cfb", *cipher, 0, s2k_kind(s2k).0, s2k_kind(s2k).1),
+        RefProtection::Aead { cipher, aead, s2k, .. } => ("aead", *cipher, *aead, s2k_kind(s2k).0, s2k_kind(s2k).1),
+    }
+}
+
+fn keyprot_packet<P: SecPkt>(ctx: &mut Ctx, pkt: &P, keyname: &str, seed: u64) {
+    let tag = P::TAG;
+    let plain = match pkt.to_bytes() {
+        Ok(b) => b,
+        Err(e) => {
+            ctx.inconclusive(format!("cannot serialise zoo key: {e}"));
+            return;
+        }
+    };
+    let Some(rs) = RefSecret::parse(&plain) else {
+        ctx.inconclusive(format!("reference cannot parse unprotected secret key packet of {keyname}"));
+        return;
+    };
+    if rs.protection != RefProtection::None {
+        ctx.inconclusive("zoo key not unprotected");
+        return;
+    }
+    let Some(Ok(material)) = rs.unlock(tag, b"") else {
+        ctx.violation(
+            "C12/keyprot/plain/checksum",
+            format!("unprotected secret key packet of {keyname} (tag {tag}) has a wrong 16-bit checksum or layout"),
+            json!({"family": "keyprot", "key": keyname, "packet": hexs(&plain)}),
+        );
+        return;
+    };
+    let v6 = rs.public.version == 6;
+    let vname = if v6 { "v6" } else { "v4" };
+    let alg = rs.public.alg;
+
+    // configurations: (protection, library can write it, direction list)
+    let mut rng = ctx.rng("keyprot", seed);
+    let mut configs: Vec<RefProtection> = vec![];
+    for &c in rfc::sym::ALL_CIPHERS.iter() {
+        let bs = rfc::sym::block_size(c).unwrap();
+        for kind in [0usize, 1] {
+            let h = STRONG_HASHES[rng.gen_range(0..STRONG_HASHES.len())];
+            configs.push(RefProtection::Cfb { cipher: c, s2k: mk_s2k(&mut rng, kind, h), iv: rbytes(&mut rng, bs) });
+        }
+        if !v6 {
+            // weak-hash and simple specifiers and usage 255 / legacy usage: only ever read
+            let h = HASHES[rng.gen_range(0..3)];
+            let kind = [0usize, 1, 3][rng.gen_range(0..3)];
+            configs.push(RefProtection::Cfb { cipher: c, s2k: mk_s2k(&mut rng, kind, h), iv: rbytes(&mut rng, bs) });
+            let h = HASHES[rng.gen_range(0..HASHES.len())];
+            let kind = [0usize, 1, 3][rng.gen_range(0..3)];
+            configs.push(RefProtection::MalleableCfb { cipher: c, s2k: mk_s2k(&mut rng, kind, h), iv: rbytes(&mut rng, bs) });
+            if rfc::sym::key_size(c) == Some(16) {
+                configs.push(RefProtection::LegacyCipher { cipher: c, iv: rbytes(&mut rng, bs) });
+            }
+        }
+    }
+    for &c in &AES {
+        for &a in &AEADS {
+            let ns = rfc::sym::aead_nonce_len(a).unwrap();
+            for kind in [0usize, 1, 2] {
+                let h = STRONG_HASHES[rng.gen_range(0..STRONG_HASHES.len())];
+                configs.push(RefProtection::Aead { cipher: c, aead: a, s2k: mk_s2k(&mut rng, kind, h), nonce: rbytes(&mut rng, ns) });
+            }
+        }
+    }
+
+    for prot in configs {
+        let (pname, c, a, kind, h) = prot_desc(&prot);
+        let pw = { let n = rng.gen_range(0..24); rbytes(&mut rng, n) };
+        let pwd = Password::from(&pw[..]);
+        let s2k_weak_or_simple = match &prot {
+            RefProtection::Cfb { s2k, .. } | RefProtection::Aead { s2k, .. } => matches!(s2k_kind(s2k), (0, _, _) | (_, 1..=3, _)),
+            _ => true,
+        };
+        let lib_writes = matches!(prot, RefProtection::Cfb { .. } | RefProtection::Aead { .. }) && !s2k_weak_or_simple;
+        let lenc = format!("{vname}-tag{tag}-pk{alg}");
+        let rp = json!({"family": "keyprot", "key": keyname, "tag": tag, "protection": format!("{prot:?}"), "pw": hexs(&pw), "plain_packet": hexs(&plain)});
+
+        // ---- library locks, reference unlocks
+        if lib_writes {
+            cov(ctx, &format!("keyprot-{pname}"), c, a, 0, kind, h, "-", &lenc, "lib->ref");
+            let mut p2 = pkt.clone();
+            let r = lib(ctx, "C12/keyprot/lib-to-ref", &rp, || p2.lock(&pwd, lib_prot(&prot)).and_then(|_| p2.to_bytes()));
+            match r {
+                Some(Ok(locked)) => {
+                    let verdict = (|| -> Result<(), (&'static str, String)> {
+                        let ls = RefSecret::parse(&locked).ok_or(("unparsable", hexs(&locked)))?;
+                        if ls.protection != prot || ls.public != rs.public {
+                            return Err(("fields-differ", format!("protection fields on the wire {:?}, requested {:?}", ls.protection, prot)));
+                        }
+                        let m = ls
+                            .unlock(tag, &pw)
+                            .ok_or(("unsupported", String::new()))?
+                            .map_err(|_| ("unlock-failed", "integrity check (SHA-1 / AEAD tag) fails under the RFC construction".to_string()))?;
+                        if m != material {
+                            return Err(("material-differs", String::new()));
+                        }
+                        let want = RefSecret::lock(&rs.public, tag, prot.clone(), &pw, &material).ok_or(("unsupported", String::new()))?.encode();
+                        if want != locked {
+                            return Err(("bytes-differ", format!("lib {} ref {}", hexs(&locked), hexs(&want))));
+                        }
+                        Ok(())
+                    })();
+                    if let Err((sy, d)) = verdict {
+                        ctx.violation(
+                            format!("C12/keyprot/{pname}/lib-to-ref/{sy}"),
+                            format!("{keyname} tag {tag} locked by the library with {prot:?} does not unlock under RFC 9580 3.7.2.1/5.5.3: {d}"),
+                            rp.clone(),
+                        );
+                    }
+                }
+                Some(Err(e)) => ctx.violation(format!("C12/keyprot/{pname}/lib-to-ref/lock-error"), format!("{keyname} tag {tag} {prot:?}: {e}"), rp.clone()),
+                None => {}
+            }
+        }
+
+        // ---- reference locks, library unlocks
+        // documented reader policy of the library: usage 253 only with iterated / Argon2 specifiers
+        let policy_refusal = matches!(&prot, RefProtection::Aead { s2k: RefS2k::Salted { .. }, .. });
+        let Some(locked) = RefSecret::lock(&rs.public, tag, prot.clone(), &pw, &material) else {
+            ctx.inconclusive("reference cannot lock with this configuration");
+            continue;
+        };
+        let locked = locked.encode();
+        let rp = json!({"family": "keyprot-ref", "key": keyname, "tag": tag, "protection": format!("{prot:?}"), "pw": hexs(&pw), "locked_packet": hexs(&locked)});
+        cov(ctx, &format!("keyprot-{pname}"), c, a, 0, kind, h, "-", &lenc, "ref->lib");
+        let r = lib(ctx, "C12/keyprot/ref-to-lib", &rp, || {
+            let mut p = P::parse(&locked).map_err(|e| format!("parse: {e}"))?;
+            p.unlock_inplace(&pwd).map_err(|e| format!("unlock: {e}"))?;
+            p.to_bytes().map_err(|e| format!("serialise: {e}"))
+        });
+        match r {
+            Some(Ok(b)) if b == plain => {
+                if policy_refusal {
+                    ctx.tally("keyprot.aead_salted_accepted", 1);
+                }
+            }
+            Some(Ok(b)) => ctx.violation(
+                format!("C12/keyprot/{pname}/ref-to-lib/material-differs"),
+                format!("{keyname} tag {tag} {prot:?}: unlocked packet differs from the original ({} vs {} octets)", b.len(), plain.len()),
+                rp,
+            ),
+            Some(Err(e)) => {
+                if policy_refusal {
+                    ctx.tally("keyprot.aead_salted_refused_by_policy", 1);
+                } else {
+                    ctx.violation(
+                        format!("C12/keyprot/{pname}/ref-to-lib/rejected"),
+                        format!("library cannot unlock {keyname} tag {tag} locked per RFC with {prot:?}: {e}"),
+                        rp,
+                    );
+                }
+            }
+            None => {}
+        }
+    }
+}
+
+fn fam_keyprot(ctx: &mut Ctx) {
+    use zoo::{Alg, Spec};
+    let mut specs = vec![
+        Spec::simple(false, Alg::Ed25519Legacy, Some(Alg::EcdhCv25519)),
+        Spec::simple(true, Alg::Ed25519, Some(Alg::X25519)),
+        Spec::simple(false, Alg::EcdsaP256, Some(Alg::EcdhP256)),
+        Spec::simple(true, Alg::Ed448, Some(Alg::X448)),
+        Spec::simple(false, Alg::Rsa2048, Some(Alg::Rsa2048)),
+        Spec::simple(true, Alg::EcdsaP384, Some(Alg::EcdhP384)),
+    ];
+    if !ctx.quick() {
+        specs.extend([
+            Spec::simple(true, Alg::EcdsaP521, Some(Alg::EcdhP521)),
+            Spec::simple(false, Alg::Dsa2048, None),
+            Spec::simple(true, Alg::Rsa2048, Some(Alg::Rsa2048)),
+            Spec::simple(false, Alg::EcdsaK256, Some(Alg::X448)),
+        ]);
+    }
+    let rounds = ctx.qt(1u64, 4u64);
+    for (si, spec) in specs.iter().enumerate() {
+        for round in 0..rounds {
+            for part in 0..2 {
+                if !ctx.mine() {
+                    continue;
+                }
+                describe_case(&format!("keyprot {} part {part} round {round}", spec.name()));
+                let key = zoo::key(spec, 0);
+                let seed = (si as u64) << 16 | round << 8 | part;
+                if part == 0 {
+                    keyprot_packet(ctx, &key.primary_key, &spec.name(), seed);
+                } else if let Some(sub) = key.secret_subkeys.first() {
+                    keyprot_packet(ctx, &sub.key, &spec.name(), seed);
+                }
+            }
+        }
+    }
+}
+// ---------------------------------------------------------------------------------------------
+// (6) AES key wrap, ECDH KDF parameter block / KDF / unwrap+unpad at the low-level public API
+
+const CURVES: [(&str, &[u8]); 4] = [
+    ("cv25519", rfc::key::OID_CV25519),
+    ("p256", rfc::key::OID_P256),
+    ("p384", rfc::key::OID_P384),
+    ("p521", rfc::key::OID_P521),
+];
+
+fn lib_curve(name: &str) -> pgp::crypto::ecc_curve::ECCCurve {
+    use pgp::crypto::ecc_curve::ECCCurve;
+    match name {
+        "cv25519" => ECCCurve::Curve25519Legacy,
+        "p256" => ECCCurve::P256,
+        "p384" => ECCCurve::P384,
+        _ => ECCCurve::P521,
+    }
+}
+
+/// padding of `m` to `total` octets (total multiple of 8, 1 <= total - len <= 255)
+fn pad_to(m: &[u8], total: usize) -> Vec<u8> {
+    let pad = total - m.len();
+    let mut o = m.to_vec();
+    o.extend(std::iter::repeat(pad as u8).take(pad));
+    o
+}
+
+fn fam_kw_kdf(ctx: &mut Ctx) {
+    // ---- RFC 3394 key wrap
+    if ctx.mine() {
+        describe_case("aes key wrap");
+        for ks in [16usize, 24, 32] {
+            for n in [16usize, 24, 32, 40, 48, 56, 64, 128, 240] {
+                let mut rng = ctx.rng("aeskw", (ks * 1000 + n) as u64);
+                let kek = rbytes(&mut rng, ks);
+                let data = rbytes(&mut rng, n);
+                let rp = json!({"family": "aeskw", "kek": hexs(&kek), "data": hexs(&data)});
+                let want = rfc::sym::aes_kw_wrap(&kek, &data).expect("ref wrap");
+                cov(ctx, "aeskw", (ks / 8 + 5) as u8, 0, 0, 0, 0, "-", &n.to_string(), "both");
+                match lib(ctx, "C12/aeskw", &rp, || pgp::crypto::aes_kw::wrap(&kek, &data)) {
+                    Some(Ok(w)) if w == want => {}
+                    Some(other) => ctx.violation("C12/aeskw/wrap-differs", format!("kek {} bits, {} octets: {:?}", ks * 8, n, other.map(|w| hexs(&w)).map_err(|e| e.to_string())), rp.clone()),
+                    None => {}
+                }
+                match lib(ctx, "C12/aeskw", &rp, || pgp::crypto::aes_kw::unwrap(&kek, &want).map(|z| z.to_vec())) {
+                    Some(Ok(d)) if d == data => {}
+                    Some(other) => ctx.violation("C12/aeskw/unwrap-differs", format!("kek {} bits, {} octets: {:?}", ks * 8, n, other.map(|w| hexs(&w)).map_err(|e| e.to_string())), rp.clone()),
+                    None => {}
+                }
+                let mut bad = want.clone();
+                let pos = rng.gen_range(0..bad.len());
+                bad[pos] ^= 1 << rng.gen_range(0..8);
+                if let Some(Ok(_)) = lib(ctx, "C12/aeskw", &rp, || pgp::crypto::aes_kw::unwrap(&kek, &bad).map(|z| z.to_vec())) {
+                    ctx.violation("C12/aeskw/integrity-not-checked", format!("unwrap accepts a modified wrapping (octet {pos})"), rp.clone());
+                }
+            }
+        }
+    }
+    // ---- curve OIDs
+    if ctx.mine() {
+        for (name, oid) in CURVES {
+            let got = lib_curve(name).oid();
+            ctx.eval();
+            if got != oid {
+                ctx.violation("C12/ecdh/oid-differs", format!("{name}: {} vs {}", hexs(&got), hexs(oid)), json!({"curve": name}));
+            }
+        }
+    }
+    // ---- KDF parameter block, KDF and unwrap/unpad for every curve x hash x KEK cipher
+    for (ci, (name, oid)) in CURVES.iter().enumerate() {
+        if !ctx.mine() {
+            continue;
+        }
+        describe_case(&format!("ecdh kdf {name}"));
+        for &h in &HASHES {
+            for &kek in &AES {
+                let ks = rfc::sym::key_size(kek).unwrap();
+                if rfc::hash_len(h).unwrap() < ks {
+                    continue;
+                }
+                for fplen in [20usize, 32] {
+                    let mut rng = ctx.rng("ecdh.kdf", ((ci as u64) << 24) | ((h as u64) << 16) | ((kek as u64) << 8) | fplen as u64);
+                    let fp = rbytes(&mut rng, fplen);
+                    let slen = [32usize, 32, 48, 66][ci];
+                    let mut shared = rbytes(&mut rng, slen);
+                    if rng.gen_bool(0.3) {
+                        shared[0] = 0; // leading zero octets of the shared point must be kept
+                    }
+                    let k = rfc::key::EcdhPub { oid: oid.to_vec(), point: vec![], kdf_hash: h, kek_alg: kek };
+                    let rp = json!({"family": "ecdh-kdf", "curve": name, "hash": h, "kek": kek, "fp": hexs(&fp), "shared": hexs(&shared)});
+                    cov(ctx, "ecdh-kdf", kek, 0, 0, 0, h, name, &format!("fp{fplen}"), "both");
+                    let want_param = rfc::key::ecdh_kdf_param(&k, &fp);
+                    let got_param = lib(ctx, "C12/ecdh", &rp, || pgp::crypto::ecdh::build_ecdh_param(oid, sym(kek), HashAlgorithm::from(h), &fp));
+                    if let Some(p) = &got_param {
+                        if *p != want_param {
+                            ctx.violation(
+                                "C12/ecdh/param-differs",
+                                format!("KDF parameter block differs from RFC 9580 11.5 ({name}, hash {h}, kek {kek}): lib {} ref {}", hexs(p), hexs(&want_param)),
+                                rp.clone(),
+                            );
+                        }
+                    }
+                    let want_kek = rfc::key::ecdh_kek(&k, &fp, &shared).expect("ref kek");
+                    match lib(ctx, "C12/ecdh", &rp, || pgp::crypto::ecdh::kdf(HashAlgorithm::from(h), &shared, ks, &want_param)) {
+                        Some(Ok(z)) if z == want_kek => {}
+                        Some(other) => ctx.violation("C12/ecdh/kdf-differs", format!("{name} hash {h} kek {kek}: {:?} vs {}", other.map(|z| hexs(&z)).map_err(|e| e.to_string()), hexs(&want_kek)), rp.clone()),
+                        None => {}
+                    }
+                    // unwrap + unpad of reference-wrapped session keys, short and obfuscating padding
+                    for sklen in [16usize, 24, 32] {
+                        let mut plain = vec![[7u8, 8, 9][sklen / 8 - 2]];
+                        plain.extend(rbytes(&mut rng, sklen));
+                        plain.extend(rfc::sum16(&plain[1..]).to_be_bytes());
+                        for (pi, padded) in [rfc::key::pkcs5_pad(&plain), pad_to(&plain, 40), pad_to(&plain[1..], 40)].into_iter().enumerate() {
+                            let unp = padded[..padded.len() - *padded.last().unwrap() as usize].to_vec();
+                            let wrapped = rfc::sym::aes_kw_wrap(&want_kek, &padded).expect("ref wrap");
+                            cov(ctx, "ecdh-unwrap", kek, 0, 0, 0, h, name, &format!("sk{sklen}pad{pi}"), "ref->lib");
+                            let r = lib(ctx, "C12/ecdh", &rp, || {
+                                pgp::crypto::ecdh::derive_session_key(&shared, &wrapped, wrapped.len(), lib_curve(name), HashAlgorithm::from(h), sym(kek), &fp).map(|z| z.to_vec())
+                            });
+                            match r {
+                                Some(Ok(d)) if d == unp => {}
+                                Some(other) => ctx.violation(
+                                    format!("C12/ecdh/derive_session_key/{}", if pi == 0 { "short-padding" } else { "long-padding" }),
+                                    format!("derive_session_key does not recover an RFC-wrapped session key ({name}, hash {h}, kek {kek}, key {sklen}, padding to {} octets): {:?}", padded.len(), other.map(|z| hexs(&z)).map_err(|e| e.to_string())),
+                                    rp.clone(),
+                                ),
+                                None => {}
+                            }
+                        }
+                    }
+                }
+            }
+        }
+    }
+}
+// ---------------------------------------------------------------------------------------------
+// reference PKESK codec (RFC 9580 5.1) and key pair helpers — written here from the RFC
+
+#[derive(Debug, Clone)]
+struct RefPkesk {
+    version: u8,
+    key_id: [u8; 8],
+    fp_version: u8,
+    fp: Vec<u8>,
+    alg: u8,
+    fields: Vec<u8>,
+}
+
+fn pkesk_parse(b: &[u8]) -> Option<RefPkesk> {
+    match *b.first()? {
+        3 => Some(RefPkesk {
+            version: 3,
+            key_id: b.get(1..9)?.try_into().ok()?,
+            fp_version: 0,
+            fp: vec![],
+            alg: *b.get(9)?,
+            fields: b.get(10..)?.to_vec(),
+        }),
+        6 => {
+            let n = *b.get(1)? as usize;
+            let (fp_version, fp) = if n == 0 { (0, vec![]) } else { (*b.get(2)?, b.get(3..2 + n)?.to_vec()) };
+            Some(RefPkesk { version: 6, key_id: [0; 8], fp_version, fp, alg: *b.get(2 + n)?, fields: b.get(3 + n..)?.to_vec() })
+        }
+        _ => None,
+    }
+}
+
+fn pkesk_encode(p: &RefPkesk) -> Vec<u8> {
+    let mut o = vec![p.version];
+    if p.version == 3 {
+        o.extend(p.key_id);
+    } else {
+        o.push(1 + p.fp.len() as u8);
+        o.push(p.fp_version);
+        o.extend(&p.fp);
+    }
+    o.push(p.alg);
+    o.extend(&p.fields);
+    o
+}
+
+/// X25519 / X448 algorithm specific fields: ephemeral || count || [cipher octet (v3)] || wrapped
+fn xfields_encode(eph: &[u8], v3_alg: Option<u8>, wrapped: &[u8]) -> Vec<u8> {
+    let mut o = eph.to_vec();
+    o.push((wrapped.len() + v3_alg.is_some() as usize) as u8);
+    if let Some(a) = v3_alg {
+        o.push(a);
+    }
+    o.extend(wrapped);
+    o
+}
+
+fn xfields_parse(f: &[u8], elen: usize, v3: bool) -> Option<(Vec<u8>, Option<u8>, Vec<u8>)> {
+    let eph = f.get(..elen)?.to_vec();
+    let n = *f.get(elen)? as usize;
+    let rest = f.get(elen + 1..)?;
+    if rest.len() != n {
+        return None;
+    }
+    if v3 {
+        Some((eph, Some(*rest.first()?), rest[1..].to_vec()))
+    } else {
+        Some((eph, None, rest.to_vec()))
+    }
+}
+
+/// (secret scalar in wire form, public point in wire form) for an ECDH curve from random octets
+fn ecdh_keypair(name: &str, rng: &mut ChaCha8Rng) -> (Vec<u8>, Vec<u8>) {
+    use p256::elliptic_curve::sec1::ToEncodedPoint;
+    macro_rules! nist {
+        ($c:ident, $n:expr) => {{
+            loop {
+                let mut b = rbytes(rng, $n);
+                if $n == 66 {
+                    b[0] &= 1;
+                }
+                if rng.gen_bool(0.25) {
+                    b[if $n == 66 { 1 } else { 0 }] = 0; // short MPI
+                    if $n == 66 {
+                        b[0] = 0;
+                    }
+                }
+                if let Ok(sk) = $c::SecretKey::from_slice(&b) {
+                    let p = sk.public_key().to_encoded_point(false).as_bytes().to_vec();
+                    break (b, p);
+                }
+            }
+        }};
+    }
+    match name {
+        "cv25519" => {
+            let mut native: [u8; 32] = rng.gen();
+            native[0] &= 248;
+            native[31] &= 127;
+            native[31] |= 64;
+            let sk = x25519_dalek::StaticSecret::from(native);
+            let pk = x25519_dalek::PublicKey::from(&sk);
+            let mut wire = native.to_vec();
+            wire.reverse();
+            let mut p = vec![0x40];
+            p.extend(pk.as_bytes());
+            (wire, p)
+        }
+        "p256" => nist!(p256, 32),
+        "p384" => nist!(p384, 48),
+        _ => nist!(p521, 66),
+    }
+}
+
+fn ecdh_material(k: &rfc::key::EcdhPub) -> Vec<u8> {
+    let mut m = vec![k.oid.len() as u8];
+    m.extend(&k.oid);
+    m.extend(rfc::mpi(&k.point));
+    m.extend([3, 1, k.kdf_hash, k.kek_alg]);
+    m
+}
+
+fn ecdh_fields_from(values: &PkeskBytes) -> Option<Vec<u8>> {
+    if let PkeskBytes::Ecdh { public_point, encrypted_session_key } = values {
+        let mut f = rfc::mpi(public_point.as_ref());
+        f.push(encrypted_session_key.len() as u8);
+        f.extend_from_slice(encrypted_session_key);
+        Some(f)
+    } else {
+        None
+    }
+}
+
+fn ecdh_values_from(fields: &[u8]) -> Option<PkeskBytes> {
+    let (eph, p) = rfc::read_mpi(fields, 0)?;
+    let l = *fields.get(p)? as usize;
+    let w = fields.get(p + 1..p + 1 + l)?;
+    Some(PkeskBytes::Ecdh { public_point: Mpi::from_slice(eph), encrypted_session_key: w.to_vec().into() })
+}
+
+fn check_plain_sk(got: &PlainSessionKey, v6: bool, alg: u8, key: &[u8]) -> bool {
+    match got {
+        PlainSessionKey::V3_4 { sym_alg, key: k } => !v6 && u8::from(*sym_alg) == alg && k.as_ref() == key,
+        PlainSessionKey::V6 { key: k } => v6 && k.as_ref() == key,
+        _ => false,
+    }
+}
+
+// ---------------------------------------------------------------------------------------------
+// (6) ECDH with every KDF hash x KEK cipher announced by the key: reference-encoded secret
+// subkeys parsed by the library, EncryptionKey::encrypt / DecryptionKey::decrypt
+
+fn fam_ecdh_params(ctx: &mut Ctx) {
+    for (ci, (name, oid)) in CURVES.iter().enumerate() {
+        for v6 in [false, true] {
+            if v6 && *name == "cv25519" {
+                continue; // Curve25519Legacy is illegal in v6 keys
+            }
+            if !ctx.mine() {
+                continue;
+            }
+            describe_case(&format!("ecdh params {name} v6={v6}"));
+            let (dh, dk) = match *name {
+                "p384" => (9u8, 8u8),
+                "p521" => (10, 9),
+                _ => (8, 7),
+            };
+            for &h in &HASHES {
+                for &kek in &AES {
+                    let ks = rfc::sym::key_size(kek).unwrap();
+                    if rfc::hash_len(h).unwrap() < ks {
+                        continue;
+                    }
+                    let default_params = h == dh && kek == dk;
+                    let weak = h <= 3;
+                    let mut rng = ctx.rng("ecdh.params", ((ci as u64) << 32) | ((v6 as u64) << 24) | ((h as u64) << 8) | kek as u64);
+                    let (secret, point) = ecdh_keypair(name, &mut rng);
+                    let k = rfc::key::EcdhPub { oid: oid.to_vec(), point, kdf_hash: h, kek_alg: kek };
+                    let public = RefPub { version: if v6 { 6 } else { 4 }, created: 1_700_000_000, v3_expiry_days: 0, alg: 18, material: ecdh_material(&k) };
+                    let fp = public.fingerprint();
+                    let body = RefSecret::lock(&public, 7, RefProtection::None, b"", &rfc::mpi(&secret)).expect("ref secret").encode();
+                    let rp = json!({"family": "ecdh-params", "curve": name, "v6": v6, "hash": h, "kek": kek, "secret_subkey_packet": hexs(&body)});
+                    let sub = match lib(ctx, "C12/ecdh/key", &rp, || <pgp::packet::SecretSubkey as SecPkt>::parse(&body)) {
+                        Some(Ok(s)) => s,
+                        Some(Err(e)) => {
+                            if default_params {
+                                ctx.violation("C12/ecdh/key/default-params-rejected", format!("{name} v6={v6}: {e}"), rp.clone());
+                            } else {
+                                ctx.tally("ecdh.params.key_rejected", 1);
+                            }
+                            continue;
+                        }
+                        None => continue,
+                    };
+                    let cls = if default_params { "default" } else if weak { "weak-hash" } else { "other" };
+                    for esk_v6 in [false, true] {
+                        let malg = AES[rng.gen_range(0..3)];
+                        let sk = rbytes(&mut rng, rfc::sym::key_size(malg).unwrap());
+                        let framing = if esk_v6 { rfc::sym::session_key_v6(&sk) } else { rfc::sym::session_key_v3(malg, &sk) };
+                        let typ = if esk_v6 { EskType::V6 } else { EskType::V3_4 };
+                        let lenc = format!("{name}-{}-{}-{cls}", if v6 { "k6" } else { "k4" }, if esk_v6 { "esk6" } else { "esk3" });
+                        // library encrypts, reference unwraps
+                        cov(ctx, "ecdh", kek, 0, 0, 0, h, "-", &lenc, "lib->ref");
+                        match lib(ctx, "C12/ecdh/lib-to-ref", &rp, || sub.public_key().encrypt(rng.clone(), &framing, typ)) {
+                            Some(Ok(values)) => {
+                                let got = ecdh_fields_from(&values).and_then(|f| rfc::key::ecdh_unwrap(&k, &fp, &secret, &f));
+                                if got.as_deref() != Some(&framing[..]) {
+                                    ctx.violation(
+                                        format!("C12/ecdh/lib-to-ref/{}", if got.is_none() { "unwrap-failed" } else { "framing-differs" }),
+                                        format!("ECDH PKESK fields made by the library do not unwrap under RFC 9580 11.5 ({name}, key v{}, KDF hash {h}, KEK {kek}): values {values:?}", public.version),
+                                        rp.clone(),
+                                    );
+                                }
+                                if weak {
+                                    ctx.tally("ecdh.params.weak_hash_encrypt_accepted", 1);
+                                }
+                            }
+                            Some(Err(e)) => {
+                                if default_params {
+                                    ctx.violation("C12/ecdh/lib-to-ref/encrypt-error", format!("{name} v6={v6} default parameters: {e}"), rp.clone());
+                                } else {
+                                    // weak KDF hashes (MUST NOT) and non-default parameters on v6 keys (MUST NOT)
+                                    ctx.tally("ecdh.params.encrypt_refused", 1);
+                                }
+                            }
+                            None => {}
+                        }
+                        // reference wraps (short and obfuscating padding), library decrypts
+                        for long_pad in [false, true] {
+                            let seed: [u8; 32] = rng.gen();
+                            let (eph, shared) = rfc::key::ecdh_shared_sender(&k.oid, &k.point, &seed).expect("ref ecdh");
+                            let kekk = rfc::key::ecdh_kek(&k, &fp, &shared).expect("ref kek");
+                            let padded = if long_pad { pad_to(&framing, 40) } else { rfc::key::pkcs5_pad(&framing) };
+                            let wrapped = rfc::sym::aes_kw_wrap(&kekk, &padded).expect("ref wrap");
+                            let mut fields = rfc::mpi(&eph);
+                            fields.push(wrapped.len() as u8);
+                            fields.extend(&wrapped);
+                            let values = ecdh_values_from(&fields).expect("fields");
+                            let rp2 = json!({"family": "ecdh-params-ref", "curve": name, "v6": v6, "hash": h, "kek": kek, "secret_subkey_packet": hexs(&body), "fields": hexs(&fields), "framing": hexs(&framing)});
+                            cov(ctx, "ecdh", kek, 0, 0, 0, h, if long_pad { "pad40" } else { "pad8" }, &lenc, "ref->lib");
+                            match lib(ctx, "C12/ecdh/ref-to-lib", &rp2, || sub.decrypt(&Password::empty(), &values, typ)) {
+                                Some(Ok(Ok(got))) if check_plain_sk(&got, esk_v6, malg, &sk) => {}
+                                Some(Ok(Ok(got))) => ctx.violation("C12/ecdh/ref-to-lib/wrong-key", format!("{name} hash {h} kek {kek}: {got:?}"), rp2),
+                                Some(Ok(Err(e))) | Some(Err(e)) => {
+                                    if weak && !default_params {
+                                        ctx.tally("ecdh.params.weak_hash_decrypt_refused", 1);
+                                    } else {
+                                        ctx.violation(
+                                            format!("C12/ecdh/ref-to-lib/rejected/{}", if long_pad { "long-padding" } else { "short-padding" }),
+                                            format!("library cannot decrypt an RFC 9580 11.5 ECDH session key ({name}, key v{}, KDF hash {h}, KEK {kek}): {e}", public.version),
+                                            rp2,
+                                        );
+                                    }
+                                }
+                                None => {}
+                            }
+                        }
+                    }
+                }
+            }
+        }
+    }
+}
+// ---------------------------------------------------------------------------------------------
+// (6)(7) whole messages to zoo keys: ECDH (4 curves), X25519, X448; PKESK v3 + SEIPDv1 and
+// PKESK v6 + SEIPDv2, both directions, with the recording encryptor watching the framing
+
+/// reference: recover the session key framing from a PKESK for the given recipient subkey
+fn ref_pkesk_unwrap(p: &RefPkesk, public: &RefPub, material: &[u8]) -> Result<Vec<u8>, String> {
+    let fp = public.fingerprint();
+    match public.alg {
+        18 => {
+            let k = rfc::key::parse_ecdh_material(&public.material).ok_or("ecdh public material")?;
+            let (d, _) = rfc::read_mpi(material, 0).ok_or("secret mpi")?;
+            rfc::key::ecdh_unwrap(&k, &fp, d, &p.fields).ok_or_else(|| "ECDH unwrap (KDF / key wrap / padding) failed".to_string())
+        }
+        25 => {
+            let (eph, alg, w) = xfields_parse(&p.fields, 32, p.version == 3).ok_or("x25519 fields layout")?;
+            let key = rfc::key::x25519_unwrap(material.try_into().map_err(|_| "secret len")?, eph[..].try_into().unwrap(), &w)
+                .ok_or("X25519 unwrap (HKDF / key wrap) failed")?;
+            Ok(alg.into_iter().chain(key).collect())
+        }
+        26 => {
+            let (eph, alg, w) = xfields_parse(&p.fields, 56, p.version == 3).ok_or("x448 fields layout")?;
+            let key = rfc::key::x448_unwrap(material.try_into().map_err(|_| "secret len")?, eph[..].try_into().unwrap(), &w)
+                .ok_or("X448 unwrap (HKDF / key wrap) failed")?;
+            Ok(alg.into_iter().chain(key).collect())
+        }
+        a => Err(format!("algorithm {a} not handled")),
+    }
+}
+
+/// reference: PKESK algorithm specific fields for the recipient
+fn ref_pkesk_wrap(public: &RefPub, v3_alg: Option<u8>, sk: &[u8], rng: &mut ChaCha8Rng, long_pad: bool) -> Option<Vec<u8>> {
+    let fp = public.fingerprint();
+    match public.alg {
+        18 => {
+            let k = rfc::key::parse_ecdh_material(&public.material)?;
+            let framing = match v3_alg {
+                Some(a) => rfc::sym::session_key_v3(a, sk),
+                None => rfc::sym::session_key_v6(sk),
+            };
+            let seed: [u8; 32] = rng.gen();
+            if !long_pad {
+                return rfc::key::ecdh_wrap(&k, &fp, &seed, &framing);
+            }
+            let (eph, shared) = rfc::key::ecdh_shared_sender(&k.oid, &k.point, &seed)?;
+            let kek = rfc::key::ecdh_kek(&k, &fp, &shared)?;
+            let wrapped = rfc::sym::aes_kw_wrap(&kek, &pad_to(&framing, 40))?;
+            let mut f = rfc::mpi(&eph);
+            f.push(wrapped.len() as u8);
+            f.extend(wrapped);
+            Some(f)
+        }
+        25 => {
+            let seed: [u8; 32] = rng.gen();
+            let (eph, w) = rfc::key::x25519_wrap(public.material[..].try_into().ok()?, &seed, sk)?;
+            Some(xfields_encode(&eph, v3_alg, &w))
+        }
+        26 => {
+            let mut seed = [0u8; 56];
+            rng.fill_bytes(&mut seed);
+            let (eph, w) = rfc::key::x448_wrap(public.material[..].try_into().ok()?, &seed, sk)?;
+            Some(xfields_encode(&eph, v3_alg, &w))
+        }
+        _ => None,
+    }
+}
+
+fn fam_pkesk_e2e(ctx: &mut Ctx) {
+    use zoo::{Alg, Spec};
+    let specs = [
+        Spec::simple(false, Alg::Ed25519Legacy, Some(Alg::EcdhCv25519)),
+        Spec::simple(false, Alg::Ed25519Legacy, Some(Alg::EcdhP256)),
+        Spec::simple(false, Alg::Ed25519Legacy, Some(Alg::EcdhP384)),
+        Spec::simple(false, Alg::Ed25519Legacy, Some(Alg::EcdhP521)),
+        Spec::simple(false, Alg::Ed25519Legacy, Some(Alg::X25519)),
+        Spec::simple(false, Alg::Ed25519Legacy, Some(Alg::X448)),
+        Spec::simple(true, Alg::Ed25519, Some(Alg::EcdhP256)),
+        Spec::simple(true, Alg::Ed25519, Some(Alg::EcdhP384)),
+        Spec::simple(true, Alg::Ed25519, Some(Alg::EcdhP521)),
+        Spec::simple(true, Alg::Ed25519, Some(Alg::X25519)),
+        Spec::simple(true, Alg::Ed25519, Some(Alg::X448)),
+    ];
+    let nkeys = ctx.qt(1u64, 4u64);
+    let payload = b"C12 public-key encrypted payload".to_vec();
+    for (si, spec) in specs.iter().enumerate() {
+        for ki in 0..nkeys {
+            if !ctx.mine() {
+                continue;
+            }
+            describe_case(&format!("pkesk e2e {} key {ki}", spec.name()));
+            let key = zoo::key(spec, ki);
+            let Some(sub) = key.secret_subkeys.first() else {
+                ctx.inconclusive("zoo key without subkey");
+                continue;
+            };
+            let body = sub.key.to_bytes().expect("subkey bytes");
+            let Some(rs) = RefSecret::parse(&body) else {
+                ctx.inconclusive("reference cannot parse zoo subkey");
+                continue;
+            };
+            let Some(Ok(material)) = rs.unlock(7, b"") else {
+                ctx.inconclusive("reference cannot read zoo subkey material");
+                continue;
+            };
+            let public = rs.public.clone();
+            let pkalg = public.alg;
+            let cons = match pkalg {
+                18 => "ecdh-msg",
+                25 => "x25519-msg",
+                _ => "x448-msg",
+            };
+            let (kdf_h, kek) = rfc::key::parse_ecdh_material(&public.material).map(|k| (k.kdf_hash, k.kek_alg)).unwrap_or((0, 0));
+            let kname = format!("{}-k{}", spec.enc_sub.as_ref().map(|a| format!("{a:?}")).unwrap_or_default(), public.version);
+            let ciphers: Vec<u8> = if ctx.quick() { vec![7, 8, 9, 3, 13] } else { rfc::sym::ALL_CIPHERS.to_vec() };
+
+            // ---------------- PKESK v3 + SEIPDv1
+            for &malg in &ciphers {
+                let mut rng = ctx.rng("pkesk.v3", ((si as u64) << 24) | (ki << 16) | malg as u64);
+                let rp = json!({"family": "pkesk-v3", "key": spec.name(), "key_index": ki, "msg_alg": malg});
+                cov(ctx, cons, malg, 0, 0, 0, kdf_h, "esk3", &kname, "lib->ref");
+                let rec = RecEncryptor::new(sub.key.public_key());
+                let res = lib(ctx, &format!("C12/{cons}/lib-to-ref"), &rp, || {
+                    let mut b = MessageBuilder::from_bytes("", payload.clone()).seipd_v1(rng.clone(), sym(malg));
+                    b.encrypt_to_key(rng.clone(), &rec)?;
+                    let sk = b.session_key().as_ref().to_vec();
+                    b.to_vec(rng.clone()).map(|o| (sk, o))
+                });
+                if let Some(res) = res {
+                    match res {
+                        Err(e) => ctx.violation(format!("C12/{cons}/lib-to-ref/build-error"), format!("{} msg alg {malg}: {e}", spec.name()), rp.clone()),
+                        Ok((sk, out)) => {
+                            let seen = rec.seen.borrow().clone();
+                            let verdict = (|| -> Result<(), (&'static str, String)> {
+                                // framing handed to the public-key primitive
+                                if pkalg == 18 {
+                                    let want = rfc::sym::session_key_v3(malg, &sk);
+                                    if seen.len() != 1 || seen[0].0 != want || seen[0].1 {
+                                        return Err(("framing-handed-to-encrypt", format!("{:?} vs alg||key||sum16 {}", seen.iter().map(|s| hexs(&s.0)).collect::<Vec<_>>(), hexs(&want))));
+                                    }
+                                }
+                                let pk = deframe(&out).map_err(|e| ("framing", e))?;
+                                if pk.len() != 2 || pk[0].tag != 1 || pk[1].tag != 18 {
+                                    return Err(("framing", format!("tags {:?}", pk.iter().map(|p| p.tag).collect::<Vec<_>>())));
+                                }
+                                let p = pkesk_parse(&pk[0].body).ok_or(("pkesk-layout", hexs(&pk[0].body)))?;
+                                if p.version != 3 || p.alg != pkalg || p.key_id != public.key_id() {
+                                    return Err(("pkesk-layout", format!("version {} alg {} key id {}", p.version, p.alg, hexs(&p.key_id))));
+                                }
+                                let fr = ref_pkesk_unwrap(&p, &public, &material).map_err(|e| ("unwrap-failed", e))?;
+                                let want = if pkalg == 18 { rfc::sym::session_key_v3(malg, &sk) } else { [&[malg][..], &sk[..]].concat() };
+                                if fr != want {
+                                    return Err(("framing-differs", format!("recovered {} expected {}", hexs(&fr), hexs(&want))));
+                                }
+                                let inner = rfc::sym::seipd_v1_decrypt(malg, &sk, &pk[1].body[1..]).map_err(|e| ("seipd", format!("{e:?}")))?;
+                                if parse_literal(&inner).map_err(|e| ("inner-stream", e))? != payload {
+                                    return Err(("wrong-plaintext", String::new()));
+                                }
+                                Ok(())
+                            })();
+                            if let Err((sy, d)) = verdict {
+                                ctx.violation(
+                                    format!("C12/{cons}/lib-to-ref/{sy}"),
+                                    format!("PKESKv3 + SEIPDv1 message made by the library for {} (subkey alg {pkalg}, KDF hash {kdf_h}, KEK {kek}) is not readable under the RFC with the recipient's secret: {d}", spec.name()),
+                                    rp.clone(),
+                                );
+                            }
+                        }
+                    }
+                }
+                // reference -> library
+                for long_pad in [false, true] {
+                    if long_pad && pkalg != 18 {
+                        continue;
+                    }
+                    let sk = rbytes(&mut rng, rfc::sym::key_size(malg).unwrap());
+                    let Some(fields) = ref_pkesk_wrap(&public, Some(malg), &sk, &mut rng, long_pad) else {
+                        ctx.inconclusive("reference cannot wrap for this key");
+                        continue;
+                    };
+                    let b1 = pkesk_encode(&RefPkesk { version: 3, key_id: public.key_id(), fp_version: 0, fp: vec![], alg: pkalg, fields });
+                    let prefix = rbytes(&mut rng, rfc::sym::block_size(malg).unwrap());
+                    let mut b18 = vec![1u8];
+                    b18.extend(rfc::sym::seipd_v1_encrypt(malg, &sk, &prefix, &ref_literal(&payload)).expect("ref seipd1"));
+                    let mut bytes = frame(1, &b1, &LenForm::NewMin).unwrap();
+                    bytes.extend(frame(18, &b18, &LenForm::NewMin).unwrap());
+                    let rp = json!({"family": "pkesk-v3-ref", "key": spec.name(), "key_index": ki, "msg_alg": malg, "message": hexs(&bytes)});
+                    cov(ctx, cons, malg, 0, 0, 0, kdf_h, if long_pad { "esk3-pad40" } else { "esk3" }, &kname, "ref->lib");
+                    let res = lib(ctx, &format!("C12/{cons}/ref-to-lib"), &rp, || {
+                        let pw = Password::empty();
+                        let ring = TheRing { secret_keys: vec![&key], key_passwords: vec![&pw], ..Default::default() };
+                        lib_read_msg(&bytes, ring)
+                    });
+                    match res {
+                        Some(Ok(d)) if d == payload => {}
+                        Some(Ok(_)) => ctx.violation(format!("C12/{cons}/ref-to-lib/wrong-plaintext"), spec.name(), rp),
+                        Some(Err(e)) => ctx.violation(
+                            format!("C12/{cons}/ref-to-lib/rejected/{}", if long_pad { "long-padding" } else { "v3" }),
+                            format!("library cannot read a reference-made PKESKv3 + SEIPDv1 message to {} (subkey alg {pkalg}): {e}", spec.name()),
+                            rp,
+                        ),
+                        None => {}
+                    }
+                }
+            }
+
+            // ---------------- PKESK v6 + SEIPDv2
+            for &s in &AES {
+                for &a in &AEADS {
+                    if ctx.quick() && (s + a + si as u8) % 3 != 0 {
+                        continue;
+                    }
+                    let mut rng = ctx.rng("pkesk.v6", ((si as u64) << 24) | (ki << 16) | ((s as u64) << 8) | a as u64);
+                    let co = [0u8, 3, 6][rng.gen_range(0..3)];
+                    let rp = json!({"family": "pkesk-v6", "key": spec.name(), "key_index": ki, "sym": s, "aead": a});
+                    cov(ctx, cons, s, a, co, 0, kdf_h, "esk6", &kname, "lib->ref");
+                    let rec = RecEncryptor::new(sub.key.public_key());
+                    let res = lib(ctx, &format!("C12/{cons}/lib-to-ref"), &rp, || {
+                        let mut b = MessageBuilder::from_bytes("", payload.clone()).seipd_v2(rng.clone(), sym(s), aead(a), chunk(co));
+                        b.encrypt_to_key(rng.clone(), &rec)?;
+                        let sk = b.session_key().as_ref().to_vec();
+                        b.to_vec(rng.clone()).map(|o| (sk, o))
+                    });
+                    if let Some(res) = res {
+                        match res {
+                            Err(e) => ctx.violation(format!("C12/{cons}/lib-to-ref/build-error"), format!("{} v6 esk sym {s}: {e}", spec.name()), rp.clone()),
+                            Ok((sk, out)) => {
+                                let seen = rec.seen.borrow().clone();
+                                let verdict = (|| -> Result<(), (&'static str, String)> {
+                                    if pkalg == 18 {
+                                        let want = rfc::sym::session_key_v6(&sk);
+                                        if seen.len() != 1 || seen[0].0 != want || !seen[0].1 {
+                                            return Err(("framing-handed-to-encrypt", format!("{:?} vs key||sum16 {}", seen.iter().map(|s| hexs(&s.0)).collect::<Vec<_>>(), hexs(&want))));
+                                        }
+                                    }
+                                    let pk = deframe(&out).map_err(|e| ("framing", e))?;
+                                    if pk.len() != 2 || pk[0].tag != 1 || pk[1].tag != 18 {
+                                        return Err(("framing", format!("tags {:?}", pk.iter().map(|p| p.tag).collect::<Vec<_>>())));
+                                    }
+                                    let p = pkesk_parse(&pk[0].body).ok_or(("pkesk-layout", hexs(&pk[0].body)))?;
+                                    if p.version != 6 || p.alg != pkalg || p.fp_version != public.version || p.fp != public.fingerprint() {
+                                        return Err(("pkesk-layout", format!("version {} alg {} key version {} fingerprint {}", p.version, p.alg, p.fp_version, hexs(&p.fp))));
+                                    }
+                                    let fr = ref_pkesk_unwrap(&p, &public, &material).map_err(|e| ("unwrap-failed", e))?;
+                                    let want = if pkalg == 18 { rfc::sym::session_key_v6(&sk) } else { sk.clone() };
+                                    if fr != want {
+                                        return Err(("framing-differs", format!("recovered {} expected {}", hexs(&fr), hexs(&want))));
+                                    }
+                                    let inner = rfc::sym::seipd_v2_decrypt(&pk[1].body, &sk).map_err(|e| ("seipd", format!("{e:?}")))?;
+                                    if parse_literal(&inner).map_err(|e| ("inner-stream", e))? != payload {
+                                        return Err(("wrong-plaintext", String::new()));
+                                    }
+                                    Ok(())
+                                })();
+                                if let Err((sy, d)) = verdict {
+                                    ctx.violation(
+                                        format!("C12/{cons}/lib-to-ref/{sy}"),
+                                        format!("PKESKv6 + SEIPDv2 message made by the library for {} (subkey alg {pkalg}) is not readable under the RFC with the recipient's secret: {d}", spec.name()),
+                                        rp.clone(),
+                                    );
+                                }
+                            }
+                        }
+                    }
+                    // reference -> library
+                    let sk = rbytes(&mut rng, rfc::sym::key_size(s).unwrap());
+                    let Some(fields) = ref_pkesk_wrap(&public, None, &sk, &mut rng, false) else {
+                        ctx.inconclusive("reference cannot wrap for this key");
+                        continue;
+                    };
+                    let b1 = pkesk_encode(&RefPkesk { version: 6, key_id: [0; 8], fp_version: public.version, fp: public.fingerprint(), alg: pkalg, fields });
+                    let salt: [u8; 32] = rng.gen();
+                    let b18 = rfc::sym::seipd_v2_encrypt(s, a, co, &salt, &sk, &ref_literal(&payload)).expect("ref seipd2");
+                    let mut bytes = frame(1, &b1, &LenForm::NewMin).unwrap();
+                    bytes.extend(frame(18, &b18, &LenForm::NewMin).unwrap());
+                    let rp = json!({"family": "pkesk-v6-ref", "key": spec.name(), "key_index": ki, "sym": s, "aead": a, "message": hexs(&bytes)});
+                    cov(ctx, cons, s, a, co, 0, kdf_h, "esk6", &kname, "ref->lib");
+                    let res = lib(ctx, &format!("C12/{cons}/ref-to-lib"), &rp, || {
+                        let pw = Password::empty();
+                        let ring = TheRing { secret_keys: vec![&key], key_passwords: vec![&pw], ..Default::default() };
+                        lib_read_msg(&bytes, ring)
+                    });
+                    match res {
+                        Some(Ok(d)) if d == payload => {}
+                        Some(Ok(_)) => ctx.violation(format!("C12/{cons}/ref-to-lib/wrong-plaintext"), spec.name(), rp),
+                        Some(Err(e)) => ctx.violation(
+                            format!("C12/{cons}/ref-to-lib/rejected/v6"),
+                            format!("library cannot read a reference-made PKESKv6 + SEIPDv2 message to {} (subkey alg {pkalg}): {e}", spec.name()),
+                            rp,
+                        ),
+                        None => {}
+                    }
+                    if si == 9 && s == 9 && a == 2 {
+                        ctx.sample(json!({"family": "pkesk-v6", "key": spec.name(), "sym": s, "aead": a, "reference_message": hexs(&bytes)}));
+                    }
+                }
+            }
+        }
+    }
 }
